@@ -9,6 +9,8 @@ import InfluxQL.Lemmas.SelectClauses
 import InfluxQL.Lemmas.SelectCQ
 import InfluxQL.Lemmas.IntLit
 import InfluxQL.Lemmas.RegexRoundTrip
+import InfluxQL.Lemmas.ShowPieces
+import InfluxQL.Lemmas.AdminPieces
 import InfluxQL.Lemmas.NumberRoundTrip
 import InfluxQL.Props.C01
 import InfluxQL.Props.C08
@@ -2841,5 +2843,1909 @@ theorem print_password_redacted (name p p' : Str) (admin : Bool) :
     (Statement.createUser name p admin).print = (Statement.createUser name p' admin).print ∧
     (Statement.setPasswordUser p name).print = (Statement.setPasswordUser p' name).print :=
   ⟨rfl, rfl⟩
+
+/-! ## administrative and SHOW statements, second round
+
+The families that were correspondence-only so far: CREATE DATABASE with its options, CREATE
+SUBSCRIPTION, SHOW TAG VALUES, SHOW MEASUREMENTS with `ON` / `WITH MEASUREMENT`, the cardinality
+statements. Pieces in `Lemmas/AdminPieces.lean` and `Lemmas/ShowPieces.lean`. -/
+
+/-! ### CREATE DATABASE … WITH options -/
+
+/-- ` FUTURE LIMIT <d>` / ` PAST LIMIT <d>` when the option is set and positive (the test of
+`CreateDatabaseStatement.String()`). -/
+def posLimitText (t : Token) (v : Option Int) : Str :=
+  match v with
+  | some v => if v > 0 then ' ' :: (t.str ++ ' ' :: (Token.LIMIT.str ++ ' ' :: formatDuration v)) else []
+  | none => []
+
+/-- ` NAME <rp>` when the name is not empty. -/
+def rpNameText (rp : Str) : Str := if rp ≠ [] then ' ' :: (Token.NAME.str ++ ' ' :: qi rp) else []
+
+theorem kwText_optDur (d : Option Int) : KwText (optDurText d) .DURATION := by
+  cases d
+  · exact Or.inl rfl
+  · exact Or.inr ⟨_, rfl⟩
+theorem kwText_optRepl (n : Option Nat) : KwText (optReplText n) .REPLICATION := by
+  cases n
+  · exact Or.inl rfl
+  · exact Or.inr ⟨_, rfl⟩
+theorem kwText_shard (sh : Int) : KwText (shardText sh) .SHARD := by
+  unfold shardText; split
+  · exact Or.inr ⟨_, rfl⟩
+  · exact Or.inl rfl
+theorem kwText_posLimit (t : Token) (v : Option Int) : KwText (posLimitText t v) t := by
+  cases v with
+  | none => exact Or.inl rfl
+  | some v =>
+    unfold posLimitText; dsimp only; split
+    · exact Or.inr ⟨_, rfl⟩
+    · exact Or.inl rfl
+theorem kwText_rpName (rp : Str) : KwText (rpNameText rp) .NAME := by
+  unfold rpNameText; split
+  · exact Or.inr ⟨_, rfl⟩
+  · exact Or.inl rfl
+
+/-- What CREATE DATABASE with a `WITH` clause prints after its keywords. -/
+def cdbText (name : Str) (d : Option Int) (n : Option Nat) (sh : Int) (fu pa : Option Int) (rp : Str) : Str :=
+  ' ' :: (qi name ++ ' ' :: (Token.WITH.str ++ (optDurText d ++ (optReplText n ++ (shardText sh ++
+    (posLimitText .FUTURE fu ++ (posLimitText .PAST pa ++ rpNameText rp)))))))
+
+theorem createDatabase_with_print (name : Str) (d : Option Int) (n : Option Nat) (sh : Int) (fu pa : Option Int)
+    (rp : Str) :
+    (Statement.createDatabase name true d (n.map Int.ofNat) rp sh fu pa).print =
+      tx "CREATE DATABASE" ++ cdbText name d n sh fu pa rp := by
+  have p1 : (Statement.createDatabase name true d (n.map Int.ofNat) rp sh fu pa).print =
+      tx "CREATE DATABASE " ++ qi name ++
+      (tx " WITH" ++ optDur " DURATION " d ++
+      (match n.map Int.ofNat with
+       | none => []
+       | some v => tx " REPLICATION " ++ intDigits v) ++
+      (if sh > 0 then tx " SHARD DURATION " ++ formatDuration sh else []) ++
+      (match fu with
+       | some v => if v > 0 then tx " FUTURE LIMIT " ++ formatDuration v else []
+       | none => []) ++
+      (match pa with
+       | some v => if v > 0 then tx " PAST LIMIT " ++ formatDuration v else []
+       | none => []) ++
+      (if rp ≠ [] then tx " NAME " ++ qi rp else [])) := rfl
+  have hd : ∀ v : Nat, intDigits (v : Int) = natDigits v := by intro v; unfold intDigits; simp
+  have e1 : tx "CREATE DATABASE " = tx "CREATE DATABASE" ++ [' '] := by decide +kernel
+  have e0 : tx " WITH" = ' ' :: Token.WITH.str := by decide +kernel
+  have e2 : tx " DURATION " = ' ' :: (Token.DURATION.str ++ [' ']) := by decide +kernel
+  have e3 : tx " REPLICATION " = ' ' :: (Token.REPLICATION.str ++ [' ']) := by decide +kernel
+  have e4 : tx " SHARD DURATION " = ' ' :: (Token.SHARD.str ++ ' ' :: (Token.DURATION.str ++ [' '])) := by
+    decide +kernel
+  have e5 : tx " NAME " = ' ' :: (Token.NAME.str ++ [' ']) := by decide +kernel
+  have e6 : tx " FUTURE LIMIT " = ' ' :: (Token.FUTURE.str ++ ' ' :: (Token.LIMIT.str ++ [' '])) := by decide +kernel
+  have e7 : tx " PAST LIMIT " = ' ' :: (Token.PAST.str ++ ' ' :: (Token.LIMIT.str ++ [' '])) := by decide +kernel
+  rw [p1, e0, e1, e3, e4, e5, e6, e7]
+  unfold cdbText
+  cases d <;> cases n <;> cases fu <;> cases pa <;>
+    simp only [optDur, optDurText, optReplText, shardText, posLimitText, rpNameText, e2, hd,
+      Option.map_some, Option.map_none, Int.ofNat_eq_natCast] <;>
+    (repeat' split) <;>
+    simp only [List.append_assoc, List.cons_append, List.nil_append, List.append_nil]
+
+section cdb
+variable (s : PState) (rest : Str)
+
+theorem cdb_dur (d : Option Int) (hd : DurOK d) (hs : s.Around (optDurText d ++ rest))
+    (hn : NextNot rest .DURATION) (hk : DurEnd rest) :
+    ∃ s', (optClause .DURATION parseDurationTok).run s = .ok (d, s') ∧ s'.Around rest := by
+  cases d with
+  | none => exact optClause_absent_around _ _ s rest hs hn
+  | some v =>
+    refine optClause_some .DURATION (by decide +kernel) _ s (formatDuration v) rest v
+      (by simpa only [optDurText, List.append_assoc, List.cons_append] using hs) ?_
+    intro s1 b1
+    exact parseDurationTok_piece s1 [' '] (formatDuration v) rest v (hd v rfl).1 (hd v rfl).2 Gap.blank b1.around
+      (scansAs_dur v (hd v rfl).1 rest hk)
+
+theorem cdb_repl (n : Option Nat) (hn : ∀ v, n = some v → 1 ≤ v ∧ (v : Int) ≤ maxInt32)
+    (hs : s.Around (optReplText n ++ rest)) (hnn : NextNot rest .REPLICATION) (hk : NumEnd rest) :
+    ∃ s', (optClause .REPLICATION (parseIntRange 1 maxInt32)).run s = .ok (n.map Int.ofNat, s') ∧ s'.Around rest := by
+  cases n with
+  | none => exact optClause_absent_around _ _ s rest hs hnn
+  | some v =>
+    refine optClause_some .REPLICATION (by decide +kernel) _ s (natDigits v) rest (v : Int)
+      (by simpa only [optReplText, List.append_assoc, List.cons_append] using hs) ?_
+    intro s1 b1
+    exact parseIntRange_piece s1 [' '] (natDigits v) rest 1 maxInt32 v (by have := (hn v rfl).1; omega)
+      (hn v rfl).2 (by have := (hn v rfl).2; unfold maxInt32 at this; unfold maxInt64; omega) Gap.blank b1.around
+      (scansAs_nat v rest hk)
+
+theorem cdb_shard (sh : Int) (h0 : 0 ≤ sh) (hm : sh ≤ maxInt64) (hs : s.Around (shardText sh ++ rest))
+    (hn : NextNot rest .SHARD) (hk : DurEnd rest) :
+    ∃ o s', (optClause .SHARD (do
+        expectTok .DURATION ["DURATION"]
+        parseDurationTok)).run s = .ok (o, s') ∧ o.getD 0 = sh ∧ s'.Around rest := by
+  unfold shardText at hs
+  by_cases hp : sh > 0
+  · rw [if_pos hp] at hs
+    obtain ⟨s', h, b⟩ := optClause_some .SHARD (by decide +kernel) (do
+        expectTok .DURATION ["DURATION"]
+        parseDurationTok) s (Token.DURATION.str ++ ' ' :: formatDuration sh) rest sh
+      (by simpa only [List.append_assoc, List.cons_append] using hs) (by
+        intro s1 b1
+        have b1' : s1.Before ([' '] ++ (Token.DURATION.str ++ (' ' :: (formatDuration sh ++ rest)))) := by
+          simpa only [List.append_assoc, List.cons_append, List.nil_append] using b1
+        obtain ⟨s2, h2, b2⟩ := expectTok_piece s1 [' '] Token.DURATION.str _ .DURATION [] ["DURATION"] Gap.blank
+          b1'.around (scansAs_kw .DURATION _ (by decide +kernel) (WordEnd.blank _))
+        obtain ⟨s3, h3, b3⟩ := parseDurationTok_piece s2 [' '] (formatDuration sh) rest sh h0 hm Gap.blank b2.around
+          (scansAs_dur sh h0 rest hk)
+        exact ⟨s3, by rw [P.run_bind _ _ s1 () s2 h2]; exact h3, b3⟩)
+    exact ⟨some sh, s', h, rfl, b⟩
+  · rw [if_neg hp] at hs
+    obtain ⟨s', h, b⟩ := optClause_absent_around .SHARD (do
+        expectTok .DURATION ["DURATION"]
+        parseDurationTok) s rest hs hn
+    exact ⟨none, s', h, by simp only [Option.getD_none]; omega, b⟩
+
+theorem cdb_limit (t : Token) (ht : t.isKw = true) (v : Option Int) (hv : DurOK v) (hz : v ≠ some 0)
+    (hs : s.Around (posLimitText t v ++ rest)) (hn : NextNot rest t) (hk : DurEnd rest) :
+    ∃ s', (optClause t parseWriteLimit).run s = .ok (v, s') ∧ s'.Around rest := by
+  cases v with
+  | none => exact optClause_absent_around _ _ s rest hs hn
+  | some v =>
+    have hp : v > 0 := by
+      have := (hv v rfl).1
+      have : v ≠ 0 := fun e => hz (by rw [e])
+      omega
+    refine optClause_some t ht _ s (Token.LIMIT.str ++ ' ' :: formatDuration v) rest v
+      (by simpa only [posLimitText, hp, if_true, List.append_assoc, List.cons_append] using hs) ?_
+    intro s1 b1
+    exact parseWriteLimit_piece s1 v rest (hv v rfl).1 (hv v rfl).2
+      (by simpa only [List.append_assoc, List.cons_append] using b1.around) hk
+
+theorem cdb_name (rp : Str) (hex : Expressible rp) (hs : s.Around (rpNameText rp ++ rest))
+    (hn : NextNot rest .NAME) (hk : IdentEnd rp rest) :
+    ∃ o s', (optClause .NAME parseIdent).run s = .ok (o, s') ∧ o.getD [] = rp ∧ s'.Around rest := by
+  unfold rpNameText at hs
+  by_cases hp : rp ≠ []
+  · rw [if_pos hp] at hs
+    obtain ⟨s', h, b⟩ := optClause_some .NAME (by decide +kernel) parseIdent s (qi rp) rest rp
+      (by simpa only [List.append_assoc, List.cons_append] using hs) (by
+        intro s1 b1
+        exact parseIdent_piece s1 [' '] (qi rp) rest rp Gap.blank b1.around (scansAs_ident rp rest hex hk))
+    exact ⟨some rp, s', h, rfl, b⟩
+  · rw [if_neg hp] at hs
+    obtain ⟨s', h, b⟩ := optClause_absent_around .NAME parseIdent s rest hs hn
+    exact ⟨none, s', h, by simpa using Eq.symm (by simpa using hp : rp = []), b⟩
+
+end cdb
+
+/-- The option keywords of `CREATE DATABASE … WITH`. -/
+def cdbKws : List Token := [.DURATION, .REPLICATION, .SHARD, .FUTURE, .PAST, .NAME]
+
+/-- **Print → parse, CREATE DATABASE name WITH …** (partial): every subset of the six options in the
+printer's order `DURATION`, `REPLICATION`, `SHARD DURATION`, `FUTURE LIMIT`, `PAST LIMIT`, `NAME`, all
+values in the ranges the parser guarantees (`ParseDuration` returns a non-negative `int64`, the
+replication factor is read by `ParseInt(1, MaxInt32)`). A retention duration of zero is printed
+(`DURATION 0s`) and read back; a shard duration of zero and an empty policy name print nothing and
+are read back as zero / empty.
+
+*Excluded* — exactly the region of the recorded open finding `zero-duration-option-not-printed`:
+a `FUTURE LIMIT` / `PAST LIMIT` of zero (`hfz`, `hpz`: stored as `&0`, not printed, read back as
+`nil`), and a statement none of whose options is printed (`hany`: `WITH SHARD DURATION 0s`, `WITH NAME ""` —
+the latter also an instance of `empty-identifier-not-printed`; the printed text ends with a lone
+`WITH`, which is rejected). Witness: `createDatabase_zero_option_counterexample`.
+`k` must not begin with a token that names an option. -/
+theorem createDatabase_with_print_parse_partial (fuel : Nat) (s : PState) (name : Str) (d : Option Int)
+    (n : Option Nat) (sh : Int) (fu pa : Option Int) (rp k : Str)
+    (hex1 : Expressible name) (hex2 : Expressible rp) (hd : DurOK d)
+    (hn : ∀ v, n = some v → 1 ≤ v ∧ (v : Int) ≤ maxInt32) (hsh : 0 ≤ sh ∧ sh ≤ maxInt64) (hfu : DurOK fu) (hpa : DurOK pa)
+    (hfz : fu ≠ some 0) (hpz : pa ≠ some 0)
+    (hany : d.isSome ∨ n.isSome ∨ sh > 0 ∨ fu.isSome ∨ pa.isSome ∨ rp ≠ []) (hk : TokEnd k) (hke : IdentEnd rp k)
+    (hstop : ∀ t ∈ cdbKws, NextNot k t)
+    (hs : s.Before (cdbText name d n sh fu pa rp ++ k)) :
+    ∃ s', (runHandler fuel .parseCreateDatabaseStatement).run s =
+        .ok (.createDatabase name true d (n.map Int.ofNat) rp sh fu pa, s') ∧ s'.Around k := by
+  have e : cdbText name d n sh fu pa rp ++ k = ' ' :: (qi name ++ ' ' :: (Token.WITH.str ++ (optDurText d ++
+      (optReplText n ++ (shardText sh ++ (posLimitText .FUTURE fu ++ (posLimitText .PAST pa ++
+        (rpNameText rp ++ k)))))))) := by
+    simp only [cdbText, List.append_assoc, List.cons_append]
+  rw [e] at hs
+  -- what may follow each optional clause
+  have k6 : TokEnd (rpNameText rp ++ k) := TokEnd.opt (kwText_rpName rp).optText hk
+  have k5 := TokEnd.opt (kwText_posLimit .PAST pa).optText k6
+  have k4 := TokEnd.opt (kwText_posLimit .FUTURE fu).optText k5
+  have k3 := TokEnd.opt (kwText_shard sh).optText k4
+  have k2 := TokEnd.opt (kwText_optRepl n).optText k3
+  have k1 := TokEnd.opt (kwText_optDur d).optText k2
+  -- the first token of each tail is none of the keywords before it
+  have m6 : ∀ t ∈ cdbKws, t ≠ .NAME → NextNot (rpNameText rp ++ k) t := fun t ht h =>
+    nextNot_kwText t (kwText_rpName rp) (by decide +kernel) (Ne.symm h) (hstop t ht)
+  have m5 : ∀ t ∈ cdbKws, t ≠ .NAME → t ≠ .PAST → NextNot (posLimitText .PAST pa ++ (rpNameText rp ++ k)) t :=
+    fun t ht h1 h2 => nextNot_kwText t (kwText_posLimit .PAST pa) (by decide +kernel) (Ne.symm h2) (m6 t ht h1)
+  have m4 : ∀ t ∈ cdbKws, t ≠ .NAME → t ≠ .PAST → t ≠ .FUTURE →
+      NextNot (posLimitText .FUTURE fu ++ (posLimitText .PAST pa ++ (rpNameText rp ++ k))) t :=
+    fun t ht h1 h2 h3 => nextNot_kwText t (kwText_posLimit .FUTURE fu) (by decide +kernel) (Ne.symm h3) (m5 t ht h1 h2)
+  have m3 : ∀ t ∈ cdbKws, t ≠ .NAME → t ≠ .PAST → t ≠ .FUTURE → t ≠ .SHARD →
+      NextNot (shardText sh ++ (posLimitText .FUTURE fu ++ (posLimitText .PAST pa ++ (rpNameText rp ++ k)))) t :=
+    fun t ht h1 h2 h3 h4 => nextNot_kwText t (kwText_shard sh) (by decide +kernel) (Ne.symm h4) (m4 t ht h1 h2 h3)
+  have m2 : ∀ t ∈ cdbKws, t ≠ .NAME → t ≠ .PAST → t ≠ .FUTURE → t ≠ .SHARD → t ≠ .REPLICATION →
+      NextNot (optReplText n ++ (shardText sh ++ (posLimitText .FUTURE fu ++ (posLimitText .PAST pa ++
+        (rpNameText rp ++ k))))) t :=
+    fun t ht h1 h2 h3 h4 h5 => nextNot_kwText t (kwText_optRepl n) (by decide +kernel) (Ne.symm h5) (m3 t ht h1 h2 h3 h4)
+  -- the probe after WITH sees an option keyword
+  have hfirst : FirstIn (optDurText d ++ (optReplText n ++ (shardText sh ++ (posLimitText .FUTURE fu ++
+      (posLimitText .PAST pa ++ (rpNameText rp ++ k)))))) cdbKws := by
+    refine firstIn_kwText (kwText_optDur d) (by decide +kernel) (by decide) (fun e1 => ?_)
+    refine firstIn_kwText (kwText_optRepl n) (by decide +kernel) (by decide) (fun e2 => ?_)
+    refine firstIn_kwText (kwText_shard sh) (by decide +kernel) (by decide) (fun e3 => ?_)
+    refine firstIn_kwText (kwText_posLimit .FUTURE fu) (by decide +kernel) (by decide) (fun e4 => ?_)
+    refine firstIn_kwText (kwText_posLimit .PAST pa) (by decide +kernel) (by decide) (fun e5 => ?_)
+    refine firstIn_kwText (kwText_rpName rp) (by decide +kernel) (by decide) (fun e6 => ?_)
+    exfalso
+    rcases hany with h | h | h | h | h | h
+    · cases d with
+      | none => cases h
+      | some v => cases e1
+    · cases n with
+      | none => cases h
+      | some v => cases e2
+    · rw [shardText, if_pos h] at e3; cases e3
+    · cases fu with
+      | none => cases h
+      | some v =>
+        have : v > 0 := by
+          have := (hfu v rfl).1
+          have : v ≠ 0 := fun e => hfz (by rw [e])
+          omega
+        simp only [posLimitText, this, if_true] at e4
+        cases e4
+    · cases pa with
+      | none => cases h
+      | some v =>
+        have : v > 0 := by
+          have := (hpa v rfl).1
+          have : v ≠ 0 := fun e => hpz (by rw [e])
+          omega
+        simp only [posLimitText, this, if_true] at e5
+        cases e5
+    · rw [rpNameText, if_pos h] at e6; cases e6
+  obtain ⟨s1, h1, b1⟩ := parseIdent_piece s [' '] (qi name) _ name Gap.blank hs.around
+    (scansAs_ident name _ hex1 (.of_wordEnd (WordEnd.blank _)))
+  obtain ⟨s2, h2, b2⟩ := optTok_piece s1 [' '] Token.WITH.str _ .WITH [] Gap.blank b1.around
+    (scansAs_kw .WITH _ (by decide +kernel) k1.1)
+  obtain ⟨lx, s3, h3, t3⟩ := hfirst s2 b2
+  have b3 : PState.Around { s3 with n := s3.n + 1 } (optDurText d ++ (optReplText n ++ (shardText sh ++
+      (posLimitText .FUTURE fu ++ (posLimitText .PAST pa ++ (rpNameText rp ++ k)))))) :=
+    ⟨s2, b2, Or.inr ⟨lx, s3, h3, rfl⟩⟩
+  obtain ⟨s4, h4, b4⟩ := cdb_dur _ _ d hd b3 (m2 _ (by decide) (by decide) (by decide) (by decide) (by decide) (by decide))
+    k2.2.2
+  obtain ⟨s5, h5, b5⟩ := cdb_repl s4 _ n hn b4 (m3 _ (by decide) (by decide) (by decide) (by decide) (by decide)) k3.2.1
+  obtain ⟨osh, s6, h6, esh, b6⟩ := cdb_shard s5 _ sh hsh.1 hsh.2 b5
+    (m4 _ (by decide) (by decide) (by decide) (by decide)) k4.2.2
+  obtain ⟨s7, h7, b7⟩ := cdb_limit s6 _ .FUTURE (by decide +kernel) fu hfu hfz b6
+    (m5 _ (by decide) (by decide) (by decide)) k5.2.2
+  obtain ⟨s8, h8, b8⟩ := cdb_limit s7 _ .PAST (by decide +kernel) pa hpa hpz b7 (m6 _ (by decide) (by decide)) k6.2.2
+  obtain ⟨orp, s9, h9, erp, b9⟩ := cdb_name s8 k rp hex2 b8 (hstop _ (by decide)) hke
+  refine ⟨s9, ?_, b9⟩
+  have hprobe : ¬ (lx.tok ≠ .DURATION ∧ lx.tok ≠ .NAME ∧ lx.tok ≠ .REPLICATION ∧ lx.tok ≠ .SHARD ∧ lx.tok ≠ .FUTURE ∧
+      lx.tok ≠ .PAST) := by
+    simp only [cdbKws, List.mem_cons, List.not_mem_nil, or_false] at t3
+    rcases t3 with h | h | h | h | h | h <;> simp [h]
+  simp only [runHandler, parseCreateDatabase]
+  rw [P.run_bind _ _ s name s1 h1, P.run_bind _ _ s1 true s2 h2]
+  simp only [if_true]
+  rw [P.run_bind _ _ s2 lx s3 h3]
+  simp only [hprobe, if_false]
+  rw [P.run_bind _ _ s3 () _ (unscan_run s3)]
+  rw [P.run_bind _ _ _ d s4 h4, P.run_bind _ _ s4 _ s5 h5, P.run_bind _ _ s5 osh s6 h6, P.run_bind _ _ s6 fu s7 h7,
+    P.run_bind _ _ s7 pa s8 h8, P.run_bind _ _ s8 orp s9 h9, esh, erp]
+  rfl
+
+/-- `CREATE DATABASE "my db" WITH DURATION 0s REPLICATION 2 FUTURE LIMIT 90m NAME "rp 1"`. -/
+example : ∃ s', (runHandler 10 .parseCreateDatabaseStatement).run
+    (PState.init (cdbText "my db".toList (some 0) (some 2) 0 (some 5400000000000) none "rp 1".toList) [] []) =
+      .ok (.createDatabase "my db".toList true (some 0) (some 2) "rp 1".toList 0 (some 5400000000000) none, s') := by
+  obtain ⟨s', h, _⟩ := createDatabase_with_print_parse_partial 10
+    (PState.init (cdbText "my db".toList (some 0) (some 2) 0 (some 5400000000000) none "rp 1".toList) [] [])
+    "my db".toList (some 0) (some 2) 0 (some 5400000000000) none "rp 1".toList [eofRune]
+    (by decide) (by decide) (by intro v h; cases h; decide) (by intro v h; cases h; decide) (by decide)
+    (by intro v h; cases h; decide) (by intro v h; cases h) (by decide) (by decide)
+    (Or.inl rfl) .eof (.of_wordEnd .eof) (stop_eof _ (by decide)) (init_before _ (by decide +kernel))
+  exact ⟨s', h⟩
+
+example : cdbText "my db".toList (some 0) (some 2) 0 (some 5400000000000) none "rp 1".toList =
+    " \"my db\" WITH DURATION 0s REPLICATION 2 FUTURE LIMIT 90m NAME \"rp 1\"".toList := by decide +kernel
+
+/-- Why the hypotheses of `createDatabase_with_print_parse_partial` are needed (the recorded finding
+`zero-duration-option-not-printed`): (1) `CREATE DATABASE d WITH SHARD DURATION 0s` is accepted, its
+statement prints as `CREATE DATABASE d WITH`, and that text is rejected; (2) `CREATE DATABASE d WITH
+DURATION 1h FUTURE LIMIT 0s` is accepted with `FutureWriteLimit = &0`, prints without the limit, and
+that text re-parses to a *different* statement (`FutureWriteLimit = nil`). -/
+theorem createDatabase_zero_option_counterexample :
+    ((match parseStatementText "CREATE DATABASE d WITH SHARD DURATION 0s".toList [] [] with
+     | .ok (.createDatabase n true none none [] 0 none none) => n == "d".toList
+     | _ => false) = true ∧
+    (Statement.createDatabase "d".toList true none none [] 0 none none).print = "CREATE DATABASE d WITH".toList ∧
+    (match parseStatementText "CREATE DATABASE d WITH".toList [] [] with
+     | .ok _ => false
+     | .error _ => true) = true) ∧
+    ((match parseStatementText "CREATE DATABASE d WITH DURATION 1h FUTURE LIMIT 0s".toList [] [] with
+     | .ok (.createDatabase n true (some 3600000000000) none [] 0 (some 0) none) => n == "d".toList
+     | _ => false) = true ∧
+    (Statement.createDatabase "d".toList true (some 3600000000000) none [] 0 (some 0) none).print =
+      "CREATE DATABASE d WITH DURATION 1h".toList ∧
+    (match parseStatementText "CREATE DATABASE d WITH DURATION 1h".toList [] [] with
+     | .ok (.createDatabase n true (some 3600000000000) none [] 0 none none) => n == "d".toList
+     | _ => false) = true) := by
+  refine ⟨⟨?_, ?_, ?_⟩, ⟨?_, ?_, ?_⟩⟩ <;> decide +kernel
+
+/-! ### CREATE SUBSCRIPTION -/
+
+/-- What CREATE SUBSCRIPTION prints after its keywords: `<name> ON <db>.<rp> DESTINATIONS <mode> '<d1>', '<d2>', …`
+(`mode` is the keyword `ALL` or `ANY`). -/
+def createSubscriptionText (name db rp : Str) (mode : Token) (v : Str) (vs : List Str) : Str :=
+  ' ' :: (qi name ++ ' ' :: (Token.ON.str ++ ' ' :: (qi db ++ '.' :: (qi rp ++ ' ' :: (Token.DESTINATIONS.str ++
+    ' ' :: (mode.str ++ ' ' :: (quoteString v ++ moreStrings vs)))))))
+
+theorem createSubscription_print (name db rp : Str) (mode : Token) (v : Str) (vs : List Str) :
+    (Statement.createSubscription name db rp (v :: vs) mode.str).print =
+      tx "CREATE SUBSCRIPTION" ++ createSubscriptionText name db rp mode v vs := by
+  have p1 : (Statement.createSubscription name db rp (v :: vs) mode.str).print =
+      tx "CREATE SUBSCRIPTION " ++ qi name ++ tx " ON " ++ qi db ++ tx "." ++ qi rp ++ tx " DESTINATIONS " ++ mode.str ++
+        tx " " ++ joinWith (tx ", ") ((v :: vs).map quoteString) := rfl
+  have e1 : tx "CREATE SUBSCRIPTION " = tx "CREATE SUBSCRIPTION" ++ [' '] := by decide +kernel
+  have e2 : tx "." = ['.'] := by decide +kernel
+  have e3 : tx " DESTINATIONS " = ' ' :: (Token.DESTINATIONS.str ++ [' ']) := by decide +kernel
+  have e4 : tx " " = [' '] := by decide +kernel
+  rw [p1, joinStrings, e1, e2, e3, e4, tx_on]
+  simp only [createSubscriptionText, List.append_assoc, List.cons_append, List.nil_append]
+
+/-- **Print → parse, CREATE SUBSCRIPTION name ON db.rp DESTINATIONS ALL|ANY 'd1', 'd2', …** — every
+statement the handler can return: any names, either mode, a destination list of any positive length
+(`parseStringList` reads at least one string). The dot is read with a raw `Scan` (no blank around
+it, as printed). The handler looks one token ahead for a further `,` and stays around `k`. -/
+theorem createSubscription_print_parse (fuel : Nat) (s : PState) (name db rp : Str) (mode : Token) (v : Str)
+    (vs : List Str) (k : Str) (hex1 : Expressible name) (hex2 : Expressible db) (hex3 : Expressible rp)
+    (hmode : mode = .ALL ∨ mode = .ANY) (hexv : ∀ x ∈ v :: vs, Expressible x) (hk : NextNot k .COMMA)
+    (hs : s.Before (createSubscriptionText name db rp mode v vs ++ k)) :
+    ∃ s', (runHandler fuel .parseCreateSubscriptionStatement).run s =
+        .ok (.createSubscription name db rp (v :: vs) mode.str, s') ∧ s'.Around k := by
+  have e : createSubscriptionText name db rp mode v vs ++ k =
+      ' ' :: (qi name ++ ' ' :: (Token.ON.str ++ ' ' :: (qi db ++ '.' :: (qi rp ++ ' ' :: (Token.DESTINATIONS.str ++
+        ' ' :: (mode.str ++ ' ' :: (quoteString v ++ (moreStrings vs ++ k)))))))) := by
+    simp only [createSubscriptionText, List.append_assoc, List.cons_append]
+  rw [e] at hs
+  have hmk : mode.isKw = true := by rcases hmode with rfl | rfl <;> decide +kernel
+  obtain ⟨s1, h1, b1⟩ := parseIdent_piece s [' '] (qi name) _ name Gap.blank hs.around
+    (scansAs_ident name _ hex1 (.of_wordEnd (WordEnd.blank _)))
+  obtain ⟨s2, h2, b2⟩ := expectTok_piece s1 [' '] Token.ON.str _ .ON [] ["ON"] Gap.blank b1.around
+    (scansAs_kw .ON _ (by decide +kernel) (WordEnd.blank _))
+  obtain ⟨s3, h3, b3⟩ := parseIdent_piece s2 [' '] (qi db) _ db Gap.blank b2.around
+    (scansAs_ident db _ hex2 (.of_wordEnd (WordEnd.dot _)))
+  obtain ⟨dot, s4, h4, t4, _, b4⟩ := pscan_piece s3 ['.'] _ .DOT [] b3
+    (scansAs_dot _ (quoteIdent_head_not_digit rp _))
+  obtain ⟨s5, h5, b5⟩ := parseIdent_piece s4 [] (qi rp) _ rp Gap.none b4.around
+    (scansAs_ident rp _ hex3 (.of_wordEnd (WordEnd.blank _)))
+  obtain ⟨s6, h6, b6⟩ := expectTok_piece s5 [' '] Token.DESTINATIONS.str _ .DESTINATIONS [] ["DESTINATIONS"] Gap.blank
+    b5.around (scansAs_kw .DESTINATIONS _ (by decide +kernel) (WordEnd.blank _))
+  obtain ⟨m, s7, h7, t7, _, b7⟩ := scanIW_piece s6 [' '] mode.str _ mode [] Gap.blank b6.around
+    (scansAs_kw mode _ hmk (WordEnd.blank _))
+  obtain ⟨s8, h8, b8⟩ := parseStringList_print s7 v vs k hexv hk b7
+  refine ⟨s8, ?_, b8⟩
+  have hm : ¬ (m.tok ≠ .ALL ∧ m.tok ≠ .ANY) := by
+    rw [t7]; rcases hmode with rfl | rfl <;> simp
+  simp only [runHandler, parseCreateSubscription]
+  rw [P.run_bind _ _ s name s1 h1, P.run_bind _ _ s1 () s2 h2, P.run_bind _ _ s2 db s3 h3,
+    P.run_bind _ _ s3 dot s4 h4]
+  simp only [t4, ne_eq, not_true_eq_false, if_false]
+  rw [P.run_bind _ _ s4 rp s5 h5, P.run_bind _ _ s5 () s6 h6, P.run_bind _ _ s6 m s7 h7]
+  simp only [hm, if_false]
+  rw [P.run_bind _ _ s7 (v :: vs) s8 h8, t7]
+  rfl
+
+/-- `CREATE SUBSCRIPTION "sub 0" ON mydb."rp.1" DESTINATIONS ANY 'udp://h1:9090', 'it''s', ''` (three
+destinations, one with an escaped quote, one empty). -/
+example : ∃ s', (runHandler 10 .parseCreateSubscriptionStatement).run
+    (PState.init (createSubscriptionText "sub 0".toList "mydb".toList "rp.1".toList .ANY "udp://h1:9090".toList
+      ["it's".toList, []]) [] []) =
+      .ok (.createSubscription "sub 0".toList "mydb".toList "rp.1".toList ["udp://h1:9090".toList, "it's".toList, []]
+        "ANY".toList, s') := by
+  obtain ⟨s', h, _⟩ := createSubscription_print_parse 10
+    (PState.init (createSubscriptionText "sub 0".toList "mydb".toList "rp.1".toList .ANY "udp://h1:9090".toList
+      ["it's".toList, []]) [] [])
+    "sub 0".toList "mydb".toList "rp.1".toList .ANY "udp://h1:9090".toList ["it's".toList, []] [eofRune]
+    (by decide) (by decide) (by decide) (Or.inr rfl) (by decide) (nextNot_eof _ (by decide))
+    (init_before _ (by decide +kernel))
+  exact ⟨s', h⟩
+
+example : createSubscriptionText "sub 0".toList "mydb".toList "rp.1".toList .ANY "udp://h1:9090".toList ["it's".toList, []] =
+    " \"sub 0\" ON mydb.\"rp.1\" DESTINATIONS ANY 'udp://h1:9090', 'it\\'s', ''".toList := by decide +kernel
+
+/-! ### SHOW TAG VALUES -/
+
+/-- The continuations of the clauses `[WHERE cond] [ORDER BY …] [LIMIT l] [OFFSET o]` of the SHOW statements. -/
+theorem showOrder_follow (c : Option Expr) (sf : List SortField) (l o : Int) (k : Str) (hk : Follow k showStop) :
+    Follow (posText .OFFSET o ++ k) [.EXACT, .CARDINALITY, .ON, .FROM, .COMMA, .WITH, .WHERE, .ORDER, .LIMIT, .SLIMIT, .SOFFSET] ∧
+    Follow (posText .LIMIT l ++ (posText .OFFSET o ++ k)) [.EXACT, .CARDINALITY, .ON, .FROM, .COMMA, .WITH, .WHERE, .ORDER] ∧
+    Follow (orderText sf ++ (posText .LIMIT l ++ (posText .OFFSET o ++ k)))
+      [.EXACT, .CARDINALITY, .ON, .FROM, .COMMA, .WITH, .WHERE] ∧
+    Follow (whereText c ++ (orderText sf ++ (posText .LIMIT l ++ (posText .OFFSET o ++ k))))
+      [.EXACT, .CARDINALITY, .ON, .FROM, .COMMA, .WITH] := by
+  obtain ⟨g4, g3, _, _⟩ := show_follow [] c l o k hk
+  have gO : Follow (orderText sf ++ (posText .LIMIT l ++ (posText .OFFSET o ++ k)))
+      [.EXACT, .CARDINALITY, .ON, .FROM, .COMMA, .WITH, .WHERE] :=
+    Follow.opt (kwText_order _) (by decide +kernel) rfl (by decide) (g3.mono (by decide))
+  exact ⟨g4, g3, gO, Follow.opt (kwText_where _) (by decide +kernel) rfl (by decide) (gO.mono (by decide))⟩
+
+/-- `[ON db] [FROM qs] WITH KEY <op> <key> [WHERE cond] [ORDER BY …] [LIMIT l] [OFFSET o]`. -/
+def showTagValuesText (db : Str) (qs : List (Str × Str × Str)) (op : Token) (key : Expr) (c : Option Expr) (sf : List SortField)
+    (l o : Int) : Str :=
+  onDbText db ++ (fromQualsText qs ++ (withKeyText op key ++ (whereText c ++ (orderText sf ++
+    (posText .LIMIT l ++ posText .OFFSET o)))))
+
+theorem showTagValues_print_partial (db : Str) (qs : List (Str × Str × Str)) (op : Token) (key : Expr) (c : Option Expr)
+    (sf : List SortField) (l o : Int) (hsf : sortOKB sf = true) :
+    (Statement.showTagValues db (qs.map qualSrc) op (some key) c sf l o).print =
+      tx "SHOW TAG VALUES" ++ showTagValuesText db qs op key c sf l o := by
+  have p1 : (Statement.showTagValues db (qs.map qualSrc) op (some key) c sf l o).print =
+      tx "SHOW TAG VALUES" ++ clauseOn db ++ clauseFrom (qs.map qualSrc) ++ printTagKey op key ++ clauseWhere c ++
+        clauseOrderBy sf ++ clausePos "LIMIT" l ++ clausePos "OFFSET" o := rfl
+  rw [p1, clauseFrom_quals qs, clauseWhere_eq, clauseOn_onDbText, (clausePos_eq l).1, (clausePos_eq o).2.1,
+    clauseOrderBy_eq sf hsf, printTagKey_eq]
+  simp only [showTagValuesText, List.append_assoc, List.append_nil]
+
+/-- **Print → parse, SHOW TAG VALUES** `[ON db] [FROM m1, …] WITH KEY = k | != k | =~ /re/ | !~ /re/ | IN (k1, k2, …)
+[WHERE cond] [ORDER BY [time] ASC|DESC] [LIMIT l] [OFFSET o]`, the key clause as `printTagKey` writes it (a string-literal key is printed
+as identifier and read back by `ParseIdent` into a string literal). The key clause is complete: `tagKeyOKB`
+holds of every operator / key pair `parseTagKeyExpr` returns for a regex written as text (key names and the
+list of `IN` of any length); so is the sort clause (`sortOKB`: the lists `parseOrderBy` returns).
+Partial: the sources are measurements `db.rp.m` / `db..m` / `rp.m` / `m` printed by `Measurement.String()`
+(`QualOK`: the measurement name is not empty — finding `empty-identifier-not-printed` —; no regex sources),
+the condition is `Printable` (C03's class, see `deleteLike_print_parse_partial`). -/
+theorem showTagValues_print_parse_partial (fuel : Nat) (s : PState) (db : Str) (qs : List (Str × Str × Str)) (op : Token)
+    (key : Expr) (c : Option Expr) (sf : List SortField) (l o : Int) (k : Str)
+    (hexdb : Expressible db) (hq : ∀ m ∈ qs, QualOK m) (hkey : tagKeyOKB op key = true) (hc : CondOK c)
+    (hsf : sortOKB sf = true)
+    (hl : 0 ≤ l ∧ l ≤ maxInt64) (ho : 0 ≤ o ∧ o ≤ maxInt64) (hk : Follow k showStop)
+    (hs : s.Before (showTagValuesText db qs op key c sf l o ++ k)) :
+    wp (runHandler fuel .parseShowTagValuesStatement) s
+      (fun st s' => st = .showTagValues db (qs.map qualSrc) op (some key) c sf l o ∧ RT.Stand s' k) (· = .fuel) := by
+  obtain ⟨g4, g3, gO, g2⟩ := showOrder_follow c sf l o k hk
+  have gW : Follow (withKeyText op key ++ (whereText c ++ (orderText sf ++ (posText .LIMIT l ++ (posText .OFFSET o ++ k)))))
+      [.EXACT, .CARDINALITY, .ON, .FROM, .COMMA] :=
+    Follow.opt (kwText_withKey op key) (by decide +kernel) rfl (by decide) (g2.mono (by decide))
+  have gF : Follow (fromQualsText qs ++ (withKeyText op key ++ (whereText c ++ (orderText sf ++ (posText .LIMIT l ++ (posText .OFFSET o ++ k))))))
+      [.EXACT, .CARDINALITY, .ON] :=
+    Follow.opt (kwText_fromQuals _) (by decide +kernel) rfl (by decide) (gW.mono (by decide))
+  have g0 : Follow (onDbText db ++ (fromQualsText qs ++ (withKeyText op key ++ (whereText c ++ (orderText sf ++ (posText .LIMIT l ++
+      (posText .OFFSET o ++ k))))))) [.EXACT, .CARDINALITY] :=
+    Follow.opt (kwText_onDb _) (by decide +kernel) rfl (by decide) (gF.mono (by decide))
+  have hs0 : RT.Stand s (onDbText db ++ (fromQualsText qs ++ (withKeyText op key ++ (whereText c ++ (orderText sf ++ (posText .LIMIT l ++
+      (posText .OFFSET o ++ k))))))) := by
+    have := hs.stand
+    simpa only [showTagValuesText, List.append_assoc] using this
+  obtain ⟨_, T, hT, _, hnot⟩ := g0
+  obtain ⟨lx, s1, h1, t1, st1, _⟩ := RT.scanIW_starts s _ T hs0 hT
+  have hne1 : ¬ lx.tok = .EXACT := by rw [t1]; intro e; exact hnot (by rw [e]; simp)
+  have hne2 : ¬ lx.tok = .CARDINALITY := by rw [t1]; intro e; exact hnot (by rw [e]; simp)
+  obtain ⟨s3, h3, st3⟩ := parseOnDb_stand (unsc s1) db _ hexdb (gF.mono (by decide)) st1
+  obtain ⟨s4, h4, st4⟩ := parseOptFrom_quals s3 qs _ hq (gW.mono (by decide)) st3
+  obtain ⟨s5, h5, b5⟩ := parseTagKeyExpr_print s4 op key _ hkey g2.tokEnd.1 st4
+  simp only [runHandler, parseShowTagValues]
+  rw [wp_bind, wp_of_run_ok h1]
+  simp only [hne1, hne2, if_false]
+  rw [wp_bind, unscan_wp, wp_bind, wp_of_run_ok h3, wp_bind, wp_of_run_ok h4, wp_bind, wp_of_run_ok h5]
+  dsimp only
+  rw [wp_bind]
+  refine wp_mono (parseCondition_print fuel s5 c _ hc (gO.mono (by decide)) b5.stand) ?_ (fun _ h => h)
+  intro c' s6 ⟨hc', st6⟩
+  subst hc'
+  obtain ⟨s7, h7, st7⟩ := parseOrderBy_print s6 sf _ hsf (g3.mono (by decide)) st6
+  obtain ⟨s8, h8, st8⟩ := parseOptTokInt_print .LIMIT (by decide +kernel) s7 l _ hl.1 hl.2 (g4.mono (by decide)) st7
+  obtain ⟨s9, h9, st9⟩ := parseOptTokInt_print .OFFSET (by decide +kernel) s8 o k ho.1 ho.2 (hk.mono (by decide)) st8
+  rw [wp_bind, wp_of_run_ok h7, wp_bind, wp_of_run_ok h8, wp_bind, wp_of_run_ok h9, wp_pure]
+  exact ⟨rfl, st9⟩
+
+/-- Non-vacuity: the five forms of the key clause. -/
+def exKeyIn : Expr := .list ["host".toList, "my tag".toList, "select".toList]
+def exTagValuesText1 : Str := showTagValuesText "my db".toList exQs .IN exKeyIn exCond exSort 10 3
+def exTagValuesText2 : Str := showTagValuesText [] [] .NEQREGEX (.regex "^a/b".toList) none [] 0 0
+def exTagValuesText3 : Str := showTagValuesText [] [([], [], "cpu".toList)] .EQ (.string "my tag".toList) none [⟨[], true⟩] 5 0
+
+example : exTagValuesText1 = (" ON \"my db\" FROM \"my db\"..cpu, rp.m, m WITH KEY IN (host, \"my tag\", \"select\") " ++
+      "WHERE host = 'a' AND (x > -1 OR y =~ /^b/) ORDER BY time DESC LIMIT 10 OFFSET 3").toList ∧
+    exTagValuesText2 = " WITH KEY !~ /^a\\/b/".toList ∧
+    exTagValuesText3 = " FROM cpu WITH KEY = \"my tag\" ORDER BY ASC LIMIT 5".toList := by decide +kernel
+
+example : tagKeyOKB .IN exKeyIn = true ∧ tagKeyOKB .NEQREGEX (.regex "^a/b".toList) = true ∧
+    tagKeyOKB .EQ (.string "my tag".toList) = true ∧ tagKeyOKB .NEQ (.string []) = true ∧
+    tagKeyOKB .EQREGEX (.regex "a\\".toList) = false ∧ tagKeyOKB .IN (.list []) = false ∧
+    tagKeyOKB .EQ (.regex ['a']) = false := by decide +kernel
+
+section
+attribute [local irreducible] wp
+example : wp (runHandler 200 .parseShowTagValuesStatement) (PState.init exTagValuesText1 [] [])
+    (fun st s' => st = .showTagValues "my db".toList (exQs.map qualSrc) .IN (some exKeyIn) exCond exSort 10 3 ∧
+      RT.Stand s' [eofRune]) (· = .fuel) :=
+  showTagValues_print_parse_partial 200 (PState.init exTagValuesText1 [] []) "my db".toList exQs .IN exKeyIn exCond exSort 10 3
+    [eofRune] (by decide +kernel) (by decide +kernel) (by decide +kernel) (by decide +kernel) (by decide +kernel) (by decide)
+    (by decide)
+    (Follow.eof _ (by decide)) (init_before exTagValuesText1 (by decide +kernel))
+
+example : wp (runHandler 200 .parseShowTagValuesStatement) (PState.init exTagValuesText2 [] [])
+    (fun st s' => st = .showTagValues [] [] .NEQREGEX (some (.regex "^a/b".toList)) none [] 0 0 ∧
+      RT.Stand s' [eofRune]) (· = .fuel) :=
+  showTagValues_print_parse_partial 200 (PState.init exTagValuesText2 [] []) [] [] .NEQREGEX (.regex "^a/b".toList) none [] 0 0
+    [eofRune] (by decide +kernel) (by decide +kernel) (by decide +kernel) (by decide +kernel) (by decide +kernel) (by decide)
+    (by decide)
+    (Follow.eof _ (by decide)) (init_before exTagValuesText2 (by decide +kernel))
+end
+
+/-- … and the fuel suffices on these inputs. -/
+example : (match (runHandler 200 .parseShowTagValuesStatement).run (PState.init exTagValuesText1 [] []) with
+    | .ok _ => true
+    | .error _ => false) = true ∧
+    (match (runHandler 200 .parseShowTagValuesStatement).run (PState.init exTagValuesText3 [] []) with
+    | .ok (.showTagValues [] [.measurement m] .EQ (some (.string v)) none [f] 5 0, _) =>
+      m.name == "cpu".toList && v == "my tag".toList && f.name == [] && f.ascending
+    | _ => false) = true := by decide +kernel
+
+/-! ### SHOW MEASUREMENTS with `ON` and `WITH MEASUREMENT` -/
+
+/-- `[ON db[.rp] | ON * | ON *.* …] [WITH MEASUREMENT = m | =~ /re/] [WHERE cond] [ORDER BY …] [LIMIT l] [OFFSET o]`. -/
+def showMeasText (db rp : Str) (wdb wrp : Bool) (m : MeasSpec) (c : Option Expr) (sf : List SortField) (l o : Int) : Str :=
+  onMeasText db rp wdb wrp ++ (withMeasText m ++ (whereText c ++ (orderText sf ++ (posText .LIMIT l ++ posText .OFFSET o))))
+
+/-- The text equation; a measurement name is not empty (finding `empty-identifier-not-printed`:
+`WITH MEASUREMENT = ""` prints no name). -/
+theorem showMeasurements_full_print_partial (db rp : Str) (wdb wrp : Bool) (m : MeasSpec) (c : Option Expr)
+    (sf : List SortField) (l o : Int) (hm : ∀ n, m = .name n → n ≠ []) (hsf : sortOKB sf = true) :
+    (Statement.showMeasurements db rp wdb wrp m.source c sf l o).print =
+      tx "SHOW MEASUREMENTS" ++ showMeasText db rp wdb wrp m c sf l o := by
+  have p1 : (Statement.showMeasurements db rp wdb wrp m.source c sf l o).print =
+      tx "SHOW MEASUREMENTS" ++
+      (if db ≠ [] ∨ wdb then
+        tx " ON " ++ (if wdb then tx "*" else qi db) ++
+        (if wrp then tx ".*" else if rp ≠ [] then tx "." ++ qi rp else [])
+       else []) ++
+      (match m.source with
+       | none => []
+       | some (.measurement m) =>
+         tx " WITH MEASUREMENT " ++ (if m.regex.isSome then tx "=~ " else tx "= ") ++ m.print
+       | some x => tx " WITH MEASUREMENT = " ++ x.print) ++
+      clauseWhere c ++ clauseOrderBy sf ++ clausePos "LIMIT" l ++ clausePos "OFFSET" o := rfl
+  have eon : (if db ≠ [] ∨ wdb then
+        tx " ON " ++ (if wdb then tx "*" else qi db) ++
+        (if wrp then tx ".*" else if rp ≠ [] then tx "." ++ qi rp else [])
+       else []) = onMeasText db rp wdb wrp := by
+    have e1 : tx "*" = ['*'] := by decide +kernel
+    have e2 : tx ".*" = ['.', '*'] := by decide +kernel
+    have e3 : tx "." = ['.'] := by decide +kernel
+    rw [tx_on, e1, e2, e3]
+    unfold onMeasText starText rpMeasText
+    by_cases h1 : db ≠ [] ∨ wdb = true
+    · rw [if_pos h1, if_pos h1]
+      by_cases h2 : wdb = true <;> by_cases h3 : wrp = true <;> by_cases h4 : rp ≠ [] <;>
+        simp only [h2, h3, h4, if_true, if_false, not_false_eq_true, List.append_assoc, List.cons_append,
+          List.nil_append, List.append_nil]
+    · rw [if_neg h1, if_neg h1]
+  have ems : (match m.source with
+       | none => []
+       | some (.measurement m) =>
+         tx " WITH MEASUREMENT " ++ (if m.regex.isSome then tx "=~ " else tx "= ") ++ m.print
+       | some x => tx " WITH MEASUREMENT = " ++ x.print) = withMeasText m := by
+    have e1 : tx " WITH MEASUREMENT " = ' ' :: (Token.WITH.str ++ ' ' :: (Token.MEASUREMENT.str ++ [' '])) := by
+      decide +kernel
+    have e2 : tx "=~ " = ['=', '~', ' '] := by decide +kernel
+    have e3 : tx "= " = ['=', ' '] := by decide +kernel
+    cases m with
+    | none => rfl
+    | name n =>
+      have hp : Measurement.print { name := n } = qi n := nameSrc_print n (hm n rfl)
+      show tx " WITH MEASUREMENT " ++ (if (none : Option Str).isSome then tx "=~ " else tx "= ") ++
+        Measurement.print { name := n } = _
+      rw [hp, e1, e3]
+      simp [withMeasText]
+    | regex src =>
+      have hp : Measurement.print { regex := some src } = '/' :: (escapeSlashes src ++ ['/']) := by
+        unfold Measurement.print; simp
+      show tx " WITH MEASUREMENT " ++ (if (some src : Option Str).isSome then tx "=~ " else tx "= ") ++
+        Measurement.print { regex := some src } = _
+      rw [hp, e1, e2]
+      simp [withMeasText]
+  rw [p1, eon, ems, clauseWhere_eq, (clausePos_eq l).1, (clausePos_eq o).2.1, clauseOrderBy_eq sf hsf]
+  simp only [showMeasText, List.append_assoc, List.append_nil]
+
+/-- The tokens that continue a SHOW MEASUREMENTS statement: those of `showStop` and `.` (after `ON db`). -/
+def showMeasStop : List Token := .DOT :: showStop
+
+/-- **Print → parse, SHOW MEASUREMENTS** `[ON db | ON db.rp | ON * | ON *.* | ON db.* | ON *.rp]
+[WITH MEASUREMENT = m | WITH MEASUREMENT =~ /re/] [WHERE cond] [ORDER BY [time] ASC|DESC] [LIMIT l] [OFFSET o]`.
+Partial: `OnMeasOK` excludes `ON "".rp` / `ON "".*` (finding `empty-identifier-not-printed`: the clause is not
+printed when the database is the empty name); the measurement of `WITH MEASUREMENT` is a plain name (no
+database / retention policy qualification) or a regex that can be written as text; the condition is
+`Printable`. The sort clause is complete (`sortOKB`: the lists `parseOrderBy` returns). `WITH MEASUREMENT = /re/`
+(accepted by the parser) yields the same statement as `=~`. -/
+theorem showMeasurements_full_print_parse_partial (fuel : Nat) (s : PState) (db rp : Str) (wdb wrp : Bool) (m : MeasSpec)
+    (c : Option Expr) (sf : List SortField) (l o : Int) (k : Str)
+    (hex1 : Expressible db) (hex2 : Expressible rp) (hon : OnMeasOK db rp wdb wrp) (hm : m.okB = true) (hc : CondOK c)
+    (hsf : sortOKB sf = true)
+    (hl : 0 ≤ l ∧ l ≤ maxInt64) (ho : 0 ≤ o ∧ o ≤ maxInt64) (hk : Follow k showMeasStop)
+    (hs : s.Before (showMeasText db rp wdb wrp m c sf l o ++ k)) :
+    wp (runHandler fuel .parseShowMeasurementsStatement) s
+      (fun st s' => st = .showMeasurements db rp wdb wrp m.source c sf l o ∧ RT.Stand s' k) (· = .fuel) := by
+  have g4 : Follow (posText .OFFSET o ++ k) [.DOT, .ON, .WITH, .WHERE, .ORDER, .COMMA, .LIMIT] :=
+    Follow.opt (kwText_pos _ _) (by decide +kernel) rfl (by decide) (hk.mono (by decide))
+  have g3 : Follow (posText .LIMIT l ++ (posText .OFFSET o ++ k)) [.DOT, .ON, .WITH, .WHERE, .ORDER, .COMMA] :=
+    Follow.opt (kwText_pos _ _) (by decide +kernel) rfl (by decide) (g4.mono (by decide))
+  have gO : Follow (orderText sf ++ (posText .LIMIT l ++ (posText .OFFSET o ++ k))) [.DOT, .ON, .WITH, .WHERE] :=
+    Follow.opt (kwText_order _) (by decide +kernel) rfl (by decide) (g3.mono (by decide))
+  have g2 : Follow (whereText c ++ (orderText sf ++ (posText .LIMIT l ++ (posText .OFFSET o ++ k)))) [.DOT, .ON, .WITH] :=
+    Follow.opt (kwText_where _) (by decide +kernel) rfl (by decide) (gO.mono (by decide))
+  have g1 : Follow (withMeasText m ++ (whereText c ++ (orderText sf ++ (posText .LIMIT l ++ (posText .OFFSET o ++ k)))))
+      [.DOT, .ON] :=
+    Follow.opt (kwText_withMeas _) (by decide +kernel) rfl (by decide) (g2.mono (by decide))
+  have hs0 : RT.Stand s (onMeasText db rp wdb wrp ++ (withMeasText m ++ (whereText c ++ (orderText sf ++ (posText .LIMIT l ++
+      (posText .OFFSET o ++ k)))))) := by
+    have := hs.stand
+    simpa only [showMeasText, List.append_assoc] using this
+  obtain ⟨s1, h1, st1⟩ := parseOnMeas_print s db rp wdb wrp _ hex1 hex2 hon (g1.mono (by decide)) hs0
+  obtain ⟨s2, h2, st2⟩ := parseWithMeas_print s1 m _ hm (g2.mono (by decide)) st1
+  simp only [runHandler]
+  rw [parseShowMeasurements_eq, wp_bind, wp_of_run_ok h1]
+  dsimp only
+  rw [wp_bind, wp_of_run_ok h2, wp_bind]
+  refine wp_mono (parseCondition_print fuel s2 c _ hc (gO.mono (by decide)) st2) ?_ (fun _ h => h)
+  intro c' s5 ⟨hc', st5⟩
+  subst hc'
+  obtain ⟨s6, h6, st6⟩ := parseOrderBy_print s5 sf _ hsf (g3.mono (by decide)) st5
+  obtain ⟨s7, h7, st7⟩ := parseOptTokInt_print .LIMIT (by decide +kernel) s6 l _ hl.1 hl.2 (g4.mono (by decide)) st6
+  obtain ⟨s8, h8, st8⟩ := parseOptTokInt_print .OFFSET (by decide +kernel) s7 o k ho.1 ho.2 (hk.mono (by decide)) st7
+  rw [wp_bind, wp_of_run_ok h6, wp_bind, wp_of_run_ok h7, wp_bind, wp_of_run_ok h8, wp_pure]
+  exact ⟨rfl, st8⟩
+
+/-- Non-vacuity: `ON "my db"."rp.1" WITH MEASUREMENT = "my m" WHERE … LIMIT 10 OFFSET 3`, `ON *.* WITH MEASUREMENT =~ /^c\/pu/`,
+`ON db0.*`, `ON *`. -/
+def exMeasText1 : Str := showMeasText "my db".toList "rp.1".toList false false (.name "my m".toList) exCond exSort 10 3
+def exMeasText2 : Str := showMeasText [] [] true true (.regex "^c/pu".toList) none [] 0 0
+def exMeasText3 : Str := showMeasText "db0".toList [] false true .none none [] 0 2
+def exMeasText4 : Str := showMeasText [] [] true false .none none [] 0 0
+
+example : exMeasText1 = (" ON \"my db\".\"rp.1\" WITH MEASUREMENT = \"my m\" " ++
+      "WHERE host = 'a' AND (x > -1 OR y =~ /^b/) ORDER BY time DESC LIMIT 10 OFFSET 3").toList ∧
+    exMeasText2 = " ON *.* WITH MEASUREMENT =~ /^c\\/pu/".toList ∧
+    exMeasText3 = " ON db0.* OFFSET 2".toList ∧ exMeasText4 = " ON *".toList := by decide +kernel
+
+example : OnMeasOK "my db".toList "rp.1".toList false false ∧ OnMeasOK [] [] true true ∧ OnMeasOK "db0".toList [] false true ∧
+    OnMeasOK [] [] true false ∧ OnMeasOK [] "rp".toList true false ∧ OnMeasOK [] [] false false ∧
+    ¬ OnMeasOK [] "rp".toList false false ∧ ¬ OnMeasOK [] [] false true := by decide +kernel
+
+section
+attribute [local irreducible] wp
+example : wp (runHandler 200 .parseShowMeasurementsStatement) (PState.init exMeasText1 [] [])
+    (fun st s' => st = .showMeasurements "my db".toList "rp.1".toList false false (some (nameSrc "my m".toList)) exCond exSort 10 3 ∧
+      RT.Stand s' [eofRune]) (· = .fuel) :=
+  showMeasurements_full_print_parse_partial 200 (PState.init exMeasText1 [] []) "my db".toList "rp.1".toList false false
+    (.name "my m".toList) exCond exSort 10 3 [eofRune] (by decide +kernel) (by decide +kernel) (by decide +kernel)
+    (by decide +kernel) (by decide +kernel) (by decide +kernel) (by decide) (by decide) (Follow.eof _ (by decide))
+    (init_before exMeasText1 (by decide +kernel))
+
+example : wp (runHandler 200 .parseShowMeasurementsStatement) (PState.init exMeasText2 [] [])
+    (fun st s' => st = .showMeasurements [] [] true true (some (.measurement { regex := some "^c/pu".toList })) none [] 0 0 ∧
+      RT.Stand s' [eofRune]) (· = .fuel) :=
+  showMeasurements_full_print_parse_partial 200 (PState.init exMeasText2 [] []) [] [] true true
+    (.regex "^c/pu".toList) none [] 0 0 [eofRune] (by decide +kernel) (by decide +kernel) (by decide +kernel)
+    (by decide +kernel) (by decide +kernel) (by decide +kernel) (by decide) (by decide) (Follow.eof _ (by decide))
+    (init_before exMeasText2 (by decide +kernel))
+
+example : wp (runHandler 200 .parseShowMeasurementsStatement) (PState.init exMeasText3 [] [])
+    (fun st s' => st = .showMeasurements "db0".toList [] false true none none [] 0 2 ∧ RT.Stand s' [eofRune]) (· = .fuel) :=
+  showMeasurements_full_print_parse_partial 200 (PState.init exMeasText3 [] []) "db0".toList [] false true
+    .none none [] 0 2 [eofRune] (by decide +kernel) (by decide +kernel) (by decide +kernel)
+    (by decide +kernel) (by decide +kernel) (by decide +kernel) (by decide) (by decide) (Follow.eof _ (by decide))
+    (init_before exMeasText3 (by decide +kernel))
+end
+
+/-- … and the fuel suffices. -/
+example : (match (runHandler 200 .parseShowMeasurementsStatement).run (PState.init exMeasText1 [] []) with
+    | .ok _ => true
+    | .error _ => false) = true := by decide +kernel
+
+/-- The excluded `ON` clauses (finding `empty-identifier-not-printed`): `SHOW MEASUREMENTS ON "".rp` is accepted
+and prints without the clause. -/
+example : (match parseStatementText "SHOW MEASUREMENTS ON \"\".rp".toList [] [] with
+     | .ok (.showMeasurements [] r false false none none [] 0 0) => r == "rp".toList
+     | _ => false) = true ∧
+    (Statement.showMeasurements [] "rp".toList false false none none [] 0 0).print = "SHOW MEASUREMENTS".toList := by
+  constructor <;> decide +kernel
+
+/-! ### the cardinality statements -/
+
+/-- `[ON db] [FROM qs] [WHERE cond] [GROUP BY dims] [LIMIT l] [OFFSET o]`. -/
+def cardText (db : Str) (qs : List (Str × Str × Str)) (c : Option Expr) (ds : List Expr) (l o : Int) : Str :=
+  onDbText db ++ (fromQualsText qs ++ (whereText c ++ (groupText ds ++ (posText .LIMIT l ++ posText .OFFSET o))))
+
+/-- The same with the `WITH KEY` clause of SHOW TAG VALUES CARDINALITY. -/
+def cardKeyText (db : Str) (qs : List (Str × Str × Str)) (op : Token) (key : Expr) (c : Option Expr) (ds : List Expr) (l o : Int) : Str :=
+  onDbText db ++ (fromQualsText qs ++ (withKeyText op key ++ (whereText c ++ (groupText ds ++
+    (posText .LIMIT l ++ posText .OFFSET o)))))
+
+/-- ` [EXACT] CARDINALITY`. -/
+def exactCardText (ex : Bool) : Str := exactText ex ++ ' ' :: Token.CARDINALITY.str
+
+theorem exactCard_eq (ex : Bool) :
+    (if ex then tx " EXACT" else []) ++ tx " CARDINALITY" = exactCardText ex ∧
+    tx " " ++ exactCardinality ex = exactCardText ex := by
+  cases ex <;> decide +kernel
+
+/-- The text equations (for all values). -/
+theorem cardinality_print_partial (db : Str) (ex : Bool) (qs : List (Str × Str × Str)) (op : Token) (key : Expr) (c : Option Expr)
+    (ds : List Expr) (l o : Int) :
+    (Statement.showSeriesCardinality db ex (qs.map qualSrc) c ds l o).print =
+      tx "SHOW SERIES" ++ (exactCardText ex ++ cardText db qs c ds l o) ∧
+    (Statement.showMeasurementCardinality ex db (qs.map qualSrc) c ds l o).print =
+      tx "SHOW MEASUREMENT" ++ (exactCardText ex ++ cardText db qs c ds l o) ∧
+    (Statement.showTagKeyCardinality db ex (qs.map qualSrc) c ds l o).print =
+      tx "SHOW TAG KEY" ++ (exactCardText ex ++ cardText db qs c ds l o) ∧
+    (Statement.showFieldKeyCardinality db ex (qs.map qualSrc) c ds l o).print =
+      tx "SHOW FIELD KEY" ++ (exactCardText ex ++ cardText db qs c ds l o) ∧
+    (Statement.showTagValuesCardinality db ex (qs.map qualSrc) op (some key) c ds l o).print =
+      tx "SHOW TAG VALUES" ++ (exactCardText ex ++ cardKeyText db qs op key c ds l o) := by
+  have p1 : (Statement.showSeriesCardinality db ex (qs.map qualSrc) c ds l o).print =
+      tx "SHOW SERIES" ++ (if ex then tx " EXACT" else []) ++ tx " CARDINALITY" ++ clauseOn db ++
+        clauseFrom (qs.map qualSrc) ++ clauseWhere c ++ clauseGroupBy ds ++ clausePos "LIMIT" l ++ clausePos "OFFSET" o := rfl
+  have p2 : (Statement.showMeasurementCardinality ex db (qs.map qualSrc) c ds l o).print =
+      tx "SHOW MEASUREMENT" ++ (if ex then tx " EXACT" else []) ++ tx " CARDINALITY" ++ clauseOn db ++
+        clauseFrom (qs.map qualSrc) ++ clauseWhere c ++ clauseGroupBy ds ++ clausePos "LIMIT" l ++ clausePos "OFFSET" o := rfl
+  have p3 : (Statement.showTagKeyCardinality db ex (qs.map qualSrc) c ds l o).print =
+      tx "SHOW TAG KEY " ++ exactCardinality ex ++ clauseOn db ++
+        clauseFrom (qs.map qualSrc) ++ clauseWhere c ++ clauseGroupBy ds ++ clausePos "LIMIT" l ++ clausePos "OFFSET" o := rfl
+  have p4 : (Statement.showFieldKeyCardinality db ex (qs.map qualSrc) c ds l o).print =
+      tx "SHOW FIELD KEY " ++ exactCardinality ex ++ clauseOn db ++
+        clauseFrom (qs.map qualSrc) ++ clauseWhere c ++ clauseGroupBy ds ++ clausePos "LIMIT" l ++ clausePos "OFFSET" o := rfl
+  have p5 : (Statement.showTagValuesCardinality db ex (qs.map qualSrc) op (some key) c ds l o).print =
+      tx "SHOW TAG VALUES " ++ exactCardinality ex ++ clauseOn db ++
+        clauseFrom (qs.map qualSrc) ++ printTagKey op key ++ clauseWhere c ++ clauseGroupBy ds ++ clausePos "LIMIT" l ++
+        clausePos "OFFSET" o := rfl
+  have e3 : tx "SHOW TAG KEY " = tx "SHOW TAG KEY" ++ tx " " := by decide +kernel
+  have e4 : tx "SHOW FIELD KEY " = tx "SHOW FIELD KEY" ++ tx " " := by decide +kernel
+  have e5 : tx "SHOW TAG VALUES " = tx "SHOW TAG VALUES" ++ tx " " := by decide +kernel
+  have a1 : ∀ x y : Str, x ++ (if ex then tx " EXACT" else []) ++ tx " CARDINALITY" ++ y = x ++ (exactCardText ex ++ y) := by
+    intro x y; rw [← (exactCard_eq ex).1]; simp only [List.append_assoc]
+  have a2 : ∀ x y : Str, x ++ tx " " ++ exactCardinality ex ++ y = x ++ (exactCardText ex ++ y) := by
+    intro x y; rw [← (exactCard_eq ex).2]; simp only [List.append_assoc]
+  rw [p1, p2, p3, p4, p5, e3, e4, e5, clauseFrom_quals qs, clauseWhere_eq, clauseOn_onDbText, (clausePos_eq l).1,
+    (clausePos_eq o).2.1, clauseGroupBy_eq, printTagKey_eq]
+  simp only [List.append_assoc] at a1 a2 ⊢
+  simp only [a1, a2, cardText, cardKeyText, List.append_assoc, and_self]
+
+section cardinality
+variable (db : Str) (qs : List (Str × Str × Str)) (c : Option Expr) (ds : List Expr) (l o : Int) (k : Str)
+
+theorem card_follow (hk : Follow k cardStop) :
+    Follow (fromQualsText qs ++ (whereText c ++ (groupText ds ++ (posText .LIMIT l ++ (posText .OFFSET o ++ k)))))
+      [.EXACT, .CARDINALITY, .ON] ∧
+    Follow (onDbText db ++ (fromQualsText qs ++ (whereText c ++ (groupText ds ++ (posText .LIMIT l ++
+      (posText .OFFSET o ++ k)))))) [.EXACT, .CARDINALITY] := by
+  obtain ⟨_, _, _, g2⟩ := cardRest_follow c ds l o k hk
+  have gF : Follow (fromQualsText qs ++ (whereText c ++ (groupText ds ++ (posText .LIMIT l ++ (posText .OFFSET o ++ k)))))
+      [.EXACT, .CARDINALITY, .ON] := Follow.opt (kwText_fromQuals _) (by decide +kernel) rfl (by decide) (g2.mono (by decide))
+  exact ⟨gF, Follow.opt (kwText_onDb _) (by decide +kernel) rfl (by decide) (gF.mono (by decide))⟩
+
+/-- `[ON db] [FROM qs]` and the common tail, from a state standing before them. -/
+theorem cardBody_print (fuel : Nat) (s : PState) (C : Str → List Source → Option Expr → List Expr → Int → Int → Statement)
+    (hexdb : Expressible db) (hq : ∀ m ∈ qs, QualOK m) (hc : CondOK c)
+    (hds : ∀ x ∈ ds, RT.rtOK false x = true) (hl : 0 ≤ l ∧ l ≤ maxInt64) (ho : 0 ≤ o ∧ o ≤ maxInt64)
+    (hk : Follow k cardStop)
+    (hs : RT.Stand s (onDbText db ++ (fromQualsText qs ++ (whereText c ++ (groupText ds ++ (posText .LIMIT l ++
+      (posText .OFFSET o ++ k))))))) :
+    wp (do
+      let db ← parseOnDb
+      let sources ← parseOptFrom
+      let cond ← parseCondition fuel
+      let dims ← parseDimensions fuel
+      let limit ← parseOptTokInt .LIMIT
+      let offset ← parseOptTokInt .OFFSET
+      pure (C db sources cond dims limit offset)) s
+      (fun st s' => st = C db (qs.map qualSrc) c ds l o ∧ RT.Stand s' k) (· = .fuel) := by
+  obtain ⟨_, _, _, g2⟩ := cardRest_follow c ds l o k hk
+  obtain ⟨gF, _⟩ := card_follow db qs c ds l o k hk
+  obtain ⟨s3, h3, st3⟩ := parseOnDb_stand s db _ hexdb (gF.mono (by decide)) hs
+  obtain ⟨s4, h4, st4⟩ := parseOptFrom_quals s3 qs _ hq (g2.mono (by decide)) st3
+  rw [wp_bind, wp_of_run_ok h3, wp_bind, wp_of_run_ok h4]
+  exact cardRest_print fuel s4 (C db (qs.map qualSrc)) c ds l o k hc hds hl ho hk st4
+
+variable (ex : Bool)
+
+/-- **Print → parse, SHOW SERIES [EXACT] CARDINALITY** `[ON db] [FROM m1, …] [WHERE cond] [GROUP BY d1, …] [LIMIT l]
+[OFFSET o]`. Partial: sources `db.rp.m` / `db..m` / `rp.m` / `m` with a non-empty name (`QualOK`), no regex
+sources; condition and dimensions of C03's class `Printable`
+(tag qs, printable expressions; no `time(…)`, `*`, regex dimensions). -/
+theorem showSeriesCardinality_print_parse_partial (fuel : Nat) (s : PState)
+    (hexdb : Expressible db) (hq : ∀ m ∈ qs, QualOK m) (hc : CondOK c)
+    (hds : ∀ x ∈ ds, RT.rtOK false x = true) (hl : 0 ≤ l ∧ l ≤ maxInt64) (ho : 0 ≤ o ∧ o ≤ maxInt64)
+    (hk : Follow k cardStop) (hs : s.Before (exactCardText ex ++ cardText db qs c ds l o ++ k)) :
+    wp (runHandler fuel .parseShowSeriesStatement) s
+      (fun st s' => st = .showSeriesCardinality db ex (qs.map qualSrc) c ds l o ∧ RT.Stand s' k) (· = .fuel) := by
+  obtain ⟨_, g0⟩ := card_follow db qs c ds l o k hk
+  have hs0 : s.Before (exactText ex ++ (' ' :: (Token.CARDINALITY.str ++ (onDbText db ++ (fromQualsText qs ++ (whereText c ++
+      (groupText ds ++ (posText .LIMIT l ++ (posText .OFFSET o ++ k))))))))) := by
+    simpa only [exactCardText, cardText, List.append_assoc, List.cons_append] using hs
+  obtain ⟨s1, h1, b1⟩ := optExact_print s ex _ g0.tokEnd.1 hs0.around
+  obtain ⟨s2, h2, b2⟩ := optTok_piece s1 [' '] Token.CARDINALITY.str _ .CARDINALITY [] Gap.blank b1
+    (scansAs_kw .CARDINALITY _ (by decide +kernel) g0.tokEnd.1)
+  simp only [runHandler, parseShowSeries]
+  rw [wp_bind, wp_of_run_ok h1, wp_bind, wp_of_run_ok h2]
+  simp only [if_true]
+  exact cardBody_print db qs c ds l o k fuel s2 (fun db ss c ds l o => .showSeriesCardinality db ex ss c ds l o)
+    hexdb hq hc hds hl ho hk b2.stand
+
+/-- **Print → parse, SHOW MEASUREMENT [EXACT] CARDINALITY …**: the dispatch reads `SHOW MEASUREMENT EXACT` /
+`SHOW MEASUREMENT CARDINALITY`; the handler for the first expects `CARDINALITY`. Partial as above. -/
+theorem showMeasurementCardinality_print_parse_partial (fuel : Nat) (s : PState)
+    (hexdb : Expressible db) (hq : ∀ m ∈ qs, QualOK m) (hc : CondOK c)
+    (hds : ∀ x ∈ ds, RT.rtOK false x = true) (hl : 0 ≤ l ∧ l ≤ maxInt64) (ho : 0 ≤ o ∧ o ≤ maxInt64)
+    (hk : Follow k cardStop)
+    (hs : s.Before ((if ex then ' ' :: Token.CARDINALITY.str else []) ++ cardText db qs c ds l o ++ k)) :
+    wp (runHandler fuel (if ex then .parseShowMeasurementCardinalityStatement_true
+        else .parseShowMeasurementCardinalityStatement_false)) s
+      (fun st s' => st = .showMeasurementCardinality ex db (qs.map qualSrc) c ds l o ∧ RT.Stand s' k) (· = .fuel) := by
+  obtain ⟨_, g0⟩ := card_follow db qs c ds l o k hk
+  cases ex with
+  | true =>
+    have hs0 : s.Before ([' '] ++ (Token.CARDINALITY.str ++ (onDbText db ++ (fromQualsText qs ++ (whereText c ++
+        (groupText ds ++ (posText .LIMIT l ++ (posText .OFFSET o ++ k)))))))) := by
+      simpa only [cardText, if_true, List.append_assoc, List.cons_append, List.nil_append] using hs
+    obtain ⟨s2, h2, b2⟩ := expectTok_piece s [' '] Token.CARDINALITY.str _ .CARDINALITY [] ["CARDINALITY"] Gap.blank
+      hs0.around (scansAs_kw .CARDINALITY _ (by decide +kernel) g0.tokEnd.1)
+    simp only [if_true, runHandler, parseShowMeasurementCardinality]
+    rw [wp_bind, wp_of_run_ok h2]
+    exact cardBody_print db qs c ds l o k fuel s2 (fun db ss c ds l o => .showMeasurementCardinality true db ss c ds l o)
+      hexdb hq hc hds hl ho hk b2.stand
+  | false =>
+    have hs0 : s.Before (onDbText db ++ (fromQualsText qs ++ (whereText c ++
+        (groupText ds ++ (posText .LIMIT l ++ (posText .OFFSET o ++ k)))))) := by
+      simpa only [cardText, Bool.false_eq_true, if_false, List.append_assoc, List.nil_append] using hs
+    simp only [Bool.false_eq_true, if_false, runHandler, parseShowMeasurementCardinality]
+    exact cardBody_print db qs c ds l o k fuel s (fun db ss c ds l o => .showMeasurementCardinality false db ss c ds l o)
+      hexdb hq hc hds hl ho hk hs0.stand
+
+/-- `parseExactCardinality` on ` [EXACT] CARDINALITY`. -/
+theorem parseExactCardinality_print (s : PState) (rest : Str) (hw : WordEnd rest)
+    (hs : s.Before (exactText ex ++ (' ' :: (Token.CARDINALITY.str ++ rest)))) :
+    ∃ s', parseExactCardinality.run s = .ok (ex, s') ∧ s'.Before rest := by
+  obtain ⟨s1, h1, b1⟩ := optExact_print s ex rest hw hs.around
+  obtain ⟨lx, s2, h2, t2, _, b2⟩ := scanIW_piece s1 [' '] Token.CARDINALITY.str rest .CARDINALITY [] Gap.blank b1
+    (scansAs_kw .CARDINALITY _ (by decide +kernel) hw)
+  refine ⟨s2, ?_, b2⟩
+  unfold parseExactCardinality
+  rw [P.run_bind _ _ s ex s1 h1, P.run_bind _ _ s1 lx s2 h2]
+  simp only [t2, ne_eq, not_true_eq_false, if_false]
+  rfl
+
+/-- **Print → parse, SHOW TAG KEY [EXACT] CARDINALITY … / SHOW FIELD KEY [EXACT] CARDINALITY …**. Partial as above. -/
+theorem showKeyCardinality_print_parse_partial (fuel : Nat) (s : PState)
+    (hexdb : Expressible db) (hq : ∀ m ∈ qs, QualOK m) (hc : CondOK c)
+    (hds : ∀ x ∈ ds, RT.rtOK false x = true) (hl : 0 ≤ l ∧ l ≤ maxInt64) (ho : 0 ≤ o ∧ o ≤ maxInt64)
+    (hk : Follow k cardStop) (hs : s.Before (exactCardText ex ++ cardText db qs c ds l o ++ k)) :
+    wp (runHandler fuel .parseShowTagKeyCardinalityStatement) s
+      (fun st s' => st = .showTagKeyCardinality db ex (qs.map qualSrc) c ds l o ∧ RT.Stand s' k) (· = .fuel) ∧
+    wp (runHandler fuel .parseShowFieldKeyCardinalityStatement) s
+      (fun st s' => st = .showFieldKeyCardinality db ex (qs.map qualSrc) c ds l o ∧ RT.Stand s' k) (· = .fuel) := by
+  obtain ⟨_, g0⟩ := card_follow db qs c ds l o k hk
+  have hs0 : s.Before (exactText ex ++ (' ' :: (Token.CARDINALITY.str ++ (onDbText db ++ (fromQualsText qs ++ (whereText c ++
+      (groupText ds ++ (posText .LIMIT l ++ (posText .OFFSET o ++ k))))))))) := by
+    simpa only [exactCardText, cardText, List.append_assoc, List.cons_append] using hs
+  obtain ⟨s2, h2, b2⟩ := parseExactCardinality_print ex s _ g0.tokEnd.1 hs0
+  constructor
+  · simp only [runHandler, parseShowTagKeyCardinality]
+    rw [wp_bind, wp_of_run_ok h2]
+    exact cardBody_print db qs c ds l o k fuel s2 (fun db ss c ds l o => .showTagKeyCardinality db ex ss c ds l o)
+      hexdb hq hc hds hl ho hk b2.stand
+  · simp only [runHandler, parseShowFieldKeyCardinality]
+    rw [wp_bind, wp_of_run_ok h2]
+    exact cardBody_print db qs c ds l o k fuel s2 (fun db ss c ds l o => .showFieldKeyCardinality db ex ss c ds l o)
+      hexdb hq hc hds hl ho hk b2.stand
+
+/-- **Print → parse, SHOW TAG VALUES [EXACT] CARDINALITY** `[ON db] [FROM m1, …] WITH KEY … [WHERE cond] [GROUP BY …]
+[LIMIT l] [OFFSET o]`; the key clause as in `showTagValues_print_parse_partial` (complete). Partial as above. -/
+theorem showTagValuesCardinality_print_parse_partial (fuel : Nat) (s : PState) (op : Token) (key : Expr)
+    (hexdb : Expressible db) (hq : ∀ m ∈ qs, QualOK m) (hkey : tagKeyOKB op key = true) (hc : CondOK c)
+    (hds : ∀ x ∈ ds, RT.rtOK false x = true) (hl : 0 ≤ l ∧ l ≤ maxInt64) (ho : 0 ≤ o ∧ o ≤ maxInt64)
+    (hk : Follow k cardStop) (hs : s.Before (exactCardText ex ++ cardKeyText db qs op key c ds l o ++ k)) :
+    wp (runHandler fuel .parseShowTagValuesStatement) s
+      (fun st s' => st = .showTagValuesCardinality db ex (qs.map qualSrc) op (some key) c ds l o ∧ RT.Stand s' k)
+      (· = .fuel) := by
+  obtain ⟨_, _, _, g2⟩ := cardRest_follow c ds l o k hk
+  have gW : Follow (withKeyText op key ++ (whereText c ++ (groupText ds ++ (posText .LIMIT l ++ (posText .OFFSET o ++ k)))))
+      [.EXACT, .CARDINALITY, .ON, .FROM, .COMMA] :=
+    Follow.opt (kwText_withKey op key) (by decide +kernel) rfl (by decide) (g2.mono (by decide))
+  have gF : Follow (fromQualsText qs ++ (withKeyText op key ++ (whereText c ++ (groupText ds ++ (posText .LIMIT l ++
+      (posText .OFFSET o ++ k)))))) [.EXACT, .CARDINALITY, .ON] :=
+    Follow.opt (kwText_fromQuals _) (by decide +kernel) rfl (by decide) (gW.mono (by decide))
+  have g0 : Follow (onDbText db ++ (fromQualsText qs ++ (withKeyText op key ++ (whereText c ++ (groupText ds ++
+      (posText .LIMIT l ++ (posText .OFFSET o ++ k))))))) [.EXACT, .CARDINALITY] :=
+    Follow.opt (kwText_onDb _) (by decide +kernel) rfl (by decide) (gF.mono (by decide))
+  -- the clauses after `[EXACT] CARDINALITY`, from a state before them
+  have body : ∀ (s2 : PState), s2.Before (onDbText db ++ (fromQualsText qs ++ (withKeyText op key ++ (whereText c ++
+      (groupText ds ++ (posText .LIMIT l ++ (posText .OFFSET o ++ k))))))) →
+      wp (do
+        let db ← parseOnDb
+        let sources ← parseOptFrom
+        let (op, key) ← parseTagKeyExpr
+        let cond ← parseCondition fuel
+        let dims ← parseDimensions fuel
+        let limit ← parseOptTokInt .LIMIT
+        let offset ← parseOptTokInt .OFFSET
+        pure (Statement.showTagValuesCardinality db ex sources op (some key) cond dims limit offset)) s2
+        (fun st s' => st = Statement.showTagValuesCardinality db ex (qs.map qualSrc) op (some key) c ds l o ∧
+          RT.Stand s' k)
+        (· = .fuel) := by
+    intro s2 b2
+    obtain ⟨s3, h3, st3⟩ := parseOnDb_stand s2 db _ hexdb (gF.mono (by decide)) b2.stand
+    obtain ⟨s4, h4, st4⟩ := parseOptFrom_quals s3 qs _ hq (gW.mono (by decide)) st3
+    obtain ⟨s5, h5, b5⟩ := parseTagKeyExpr_print s4 op key _ hkey g2.tokEnd.1 st4
+    rw [wp_bind, wp_of_run_ok h3, wp_bind, wp_of_run_ok h4, wp_bind, wp_of_run_ok h5]
+    dsimp only
+    exact cardRest_print fuel s5 (fun c ds l o => .showTagValuesCardinality db ex (qs.map qualSrc) op (some key) c ds l o)
+      c ds l o k hc hds hl ho hk b5.stand
+  cases ex with
+  | true =>
+    have hs0 : s.Before ([' '] ++ (Token.EXACT.str ++ (' ' :: (Token.CARDINALITY.str ++ (onDbText db ++ (fromQualsText qs ++
+        (withKeyText op key ++ (whereText c ++ (groupText ds ++ (posText .LIMIT l ++ (posText .OFFSET o ++ k)))))))))))
+        := by
+      simpa only [exactCardText, exactText, cardKeyText, if_true, List.append_assoc, List.cons_append, List.nil_append]
+        using hs
+    obtain ⟨lx, s1, h1, t1, _, b1⟩ := scanIW_piece s [' '] Token.EXACT.str _ .EXACT [] Gap.blank hs0.around
+      (scansAs_kw .EXACT _ (by decide +kernel) (WordEnd.blank _))
+    obtain ⟨s2, h2, b2⟩ := expectTok_piece s1 [' '] Token.CARDINALITY.str _ .CARDINALITY [] ["CARDINALITY"] Gap.blank
+      b1.around (scansAs_kw .CARDINALITY _ (by decide +kernel) g0.tokEnd.1)
+    simp only [runHandler, parseShowTagValues]
+    rw [wp_bind, wp_of_run_ok h1]
+    simp only [t1, if_true, parseShowTagValuesCardinality]
+    rw [wp_bind, wp_of_run_ok h2]
+    exact body s2 b2
+  | false =>
+    have hs0 : s.Before ([' '] ++ (Token.CARDINALITY.str ++ (onDbText db ++ (fromQualsText qs ++
+        (withKeyText op key ++ (whereText c ++ (groupText ds ++ (posText .LIMIT l ++ (posText .OFFSET o ++ k)))))))))
+        := by
+      simpa only [exactCardText, exactText, cardKeyText, Bool.false_eq_true, if_false, List.append_assoc,
+        List.cons_append, List.nil_append] using hs
+    obtain ⟨lx, s1, h1, t1, _, b1⟩ := scanIW_piece s [' '] Token.CARDINALITY.str _ .CARDINALITY [] Gap.blank hs0.around
+      (scansAs_kw .CARDINALITY _ (by decide +kernel) g0.tokEnd.1)
+    simp only [runHandler, parseShowTagValues]
+    rw [wp_bind, wp_of_run_ok h1]
+    simp only [t1, reduceCtorEq, if_false, if_true, parseShowTagValuesCardinality, Bool.false_eq_true]
+    exact body s1 b1
+
+end cardinality
+
+/-- Non-vacuity of the cardinality theorems. -/
+def exCardText : Str := exactCardText true ++ cardText "my db".toList exQs exCond exDims 10 3
+def exCardText2 : Str := exactCardText false ++ cardText [] [] none exDims 0 0
+def exCardKeyText : Str := exactCardText true ++ cardKeyText [] [([], [], "cpu".toList)] .IN exKeyIn none exDims 5 0
+
+example : exCardText = (" EXACT CARDINALITY ON \"my db\" FROM \"my db\"..cpu, rp.m, m WHERE host = 'a' AND (x > -1 OR y =~ /^b/) " ++
+      "GROUP BY host, \"my tag\" LIMIT 10 OFFSET 3").toList ∧
+    exCardText2 = " CARDINALITY GROUP BY host, \"my tag\"".toList ∧
+    exCardKeyText = (" EXACT CARDINALITY FROM cpu WITH KEY IN (host, \"my tag\", \"select\") " ++
+      "GROUP BY host, \"my tag\" LIMIT 5").toList := by decide +kernel
+
+section
+attribute [local irreducible] wp
+example : wp (runHandler 200 .parseShowSeriesStatement) (PState.init exCardText [] [])
+    (fun st s' => st = .showSeriesCardinality "my db".toList true (exQs.map qualSrc) exCond exDims 10 3 ∧
+      RT.Stand s' [eofRune]) (· = .fuel) :=
+  showSeriesCardinality_print_parse_partial "my db".toList exQs exCond exDims 10 3 [eofRune] true 200
+    (PState.init exCardText [] []) (by decide +kernel) (by decide +kernel) (by decide +kernel) (by decide +kernel)
+    (by decide) (by decide) (Follow.eof _ (by decide)) (init_before exCardText (by decide +kernel))
+
+example : wp (runHandler 200 .parseShowMeasurementCardinalityStatement_false) (PState.init (cardText [] [] none exDims 0 0) [] [])
+    (fun st s' => st = .showMeasurementCardinality false [] [] none exDims 0 0 ∧ RT.Stand s' [eofRune]) (· = .fuel) :=
+  showMeasurementCardinality_print_parse_partial [] [] none exDims 0 0 [eofRune] false 200
+    (PState.init (cardText [] [] none exDims 0 0) [] []) (by decide +kernel) (by decide +kernel) (by decide +kernel)
+    (by decide +kernel) (by decide) (by decide) (Follow.eof _ (by decide))
+    (init_before (cardText [] [] none exDims 0 0) (by decide +kernel))
+
+example : wp (runHandler 200 .parseShowTagKeyCardinalityStatement) (PState.init exCardText2 [] [])
+    (fun st s' => st = .showTagKeyCardinality [] false [] none exDims 0 0 ∧ RT.Stand s' [eofRune]) (· = .fuel) :=
+  (showKeyCardinality_print_parse_partial [] [] none exDims 0 0 [eofRune] false 200
+    (PState.init exCardText2 [] []) (by decide +kernel) (by decide +kernel) (by decide +kernel) (by decide +kernel)
+    (by decide) (by decide) (Follow.eof _ (by decide)) (init_before exCardText2 (by decide +kernel))).1
+
+example : wp (runHandler 200 .parseShowFieldKeyCardinalityStatement) (PState.init exCardText [] [])
+    (fun st s' => st = .showFieldKeyCardinality "my db".toList true (exQs.map qualSrc) exCond exDims 10 3 ∧
+      RT.Stand s' [eofRune]) (· = .fuel) :=
+  (showKeyCardinality_print_parse_partial "my db".toList exQs exCond exDims 10 3 [eofRune] true 200
+    (PState.init exCardText [] []) (by decide +kernel) (by decide +kernel) (by decide +kernel) (by decide +kernel)
+    (by decide) (by decide) (Follow.eof _ (by decide)) (init_before exCardText (by decide +kernel))).2
+
+example : wp (runHandler 200 .parseShowTagValuesStatement) (PState.init exCardKeyText [] [])
+    (fun st s' => st = .showTagValuesCardinality [] true ([([], [], "cpu".toList)].map qualSrc) .IN (some exKeyIn) none exDims 5 0 ∧
+      RT.Stand s' [eofRune]) (· = .fuel) :=
+  showTagValuesCardinality_print_parse_partial [] [([], [], "cpu".toList)] none exDims 5 0 [eofRune] true 200
+    (PState.init exCardKeyText [] []) .IN exKeyIn (by decide +kernel) (by decide +kernel) (by decide +kernel)
+    (by decide +kernel) (by decide +kernel) (by decide) (by decide) (Follow.eof _ (by decide))
+    (init_before exCardKeyText (by decide +kernel))
+end
+
+/-- … and the fuel suffices. -/
+example : (match (runHandler 200 .parseShowSeriesStatement).run (PState.init exCardText [] []) with
+    | .ok _ => true
+    | .error _ => false) = true ∧
+    (match (runHandler 200 .parseShowTagValuesStatement).run (PState.init exCardKeyText [] []) with
+    | .ok _ => true
+    | .error _ => false) = true := by decide +kernel
+
+/-! ### the dispatch keywords of the families of this round -/
+
+/-- The keyword paths of the families above (see `familyPaths`): what is printed before the handler's part,
+the keywords, the handler they select. `SHOW MEASUREMENT` splits on the next keyword. -/
+def adminShowPaths : List (Str × List Token × Handler) :=
+  [(tx "CREATE DATABASE", [.CREATE, .DATABASE], .parseCreateDatabaseStatement),
+   (tx "CREATE SUBSCRIPTION", [.CREATE, .SUBSCRIPTION], .parseCreateSubscriptionStatement),
+   (tx "SHOW TAG VALUES", [.SHOW, .TAG, .VALUES], .parseShowTagValuesStatement),
+   (tx "SHOW MEASUREMENTS", [.SHOW, .MEASUREMENTS], .parseShowMeasurementsStatement),
+   (tx "SHOW SERIES", [.SHOW, .SERIES], .parseShowSeriesStatement),
+   (tx "SHOW MEASUREMENT EXACT", [.SHOW, .MEASUREMENT, .EXACT], .parseShowMeasurementCardinalityStatement_true),
+   (tx "SHOW MEASUREMENT CARDINALITY", [.SHOW, .MEASUREMENT, .CARDINALITY], .parseShowMeasurementCardinalityStatement_false),
+   (tx "SHOW TAG KEYS", [.SHOW, .TAG, .KEYS], .parseShowTagKeysStatement),
+   (tx "SHOW TAG KEY", [.SHOW, .TAG, .KEY], .parseShowTagKeyCardinalityStatement),
+   (tx "SHOW FIELD KEY", [.SHOW, .FIELD, .KEY], .parseShowFieldKeyCardinalityStatement)]
+
+/-- Obligation on the regenerated tables: every path above is printed as its keywords, consists of
+keywords of the scanner's table, and selects its handler from the root of the dispatch tree. -/
+theorem gen_adminShowPaths : ∀ p ∈ adminShowPaths,
+    p.1 = kwText p.2.1 ∧ (∀ t ∈ p.2.1, t.isKw = true) ∧ dispatchPath 0 p.2.1 = some p.2.2 ∧
+      p.2.1.length ≤ dispatch.length + 1 := by decide +kernel
+
+/-- **End to end, an instance:** `ParseStatement` on the whole printed text of a CREATE SUBSCRIPTION
+statement, followed by `k`, returns that statement and stays around `k`. -/
+theorem createSubscription_statement_print_parse (fuel : Nat) (s : PState) (name db rp : Str) (mode : Token) (v : Str)
+    (vs : List Str) (k : Str) (hex1 : Expressible name) (hex2 : Expressible db) (hex3 : Expressible rp)
+    (hmode : mode = .ALL ∨ mode = .ANY) (hexv : ∀ x ∈ v :: vs, Expressible x) (hk : NextNot k .COMMA)
+    (hs : s.Before ((Statement.createSubscription name db rp (v :: vs) mode.str).print ++ k)) :
+    ∃ s', (parseStatement fuel).run s = .ok (.createSubscription name db rp (v :: vs) mode.str, s') ∧ s'.Around k := by
+  rw [createSubscription_print] at hs
+  obtain ⟨hpr, hkw, hpath, hlen⟩ := gen_adminShowPaths (tx "CREATE SUBSCRIPTION", [.CREATE, .SUBSCRIPTION],
+    .parseCreateSubscriptionStatement) (by simp [adminShowPaths])
+  simp only at hpr hkw hpath hlen
+  rw [hpr, List.append_assoc] at hs
+  obtain ⟨s1, h1, b1⟩ := parseStatement_print fuel _ _ s [] (createSubscriptionText name db rp mode v vs ++ k) hpath hkw
+    hlen Gap.none (WordEnd.blank _) hs
+  obtain ⟨s', h2, b2⟩ := createSubscription_print_parse fuel s1 name db rp mode v vs k hex1 hex2 hex3 hmode hexv hk b1
+  exact ⟨s', by rw [h1]; exact h2, b2⟩
+
+/-! ### SHOW TAG KEYS with `WITH KEY`, SLIMIT and SOFFSET -/
+
+/-- ` WITH KEY <op> <key>` when there is a key. -/
+def optKeyText (op : Token) : Option Expr → Str
+  | none => []
+  | some key => withKeyText op key
+
+/-- `[ON db] [FROM qs] [WITH KEY …] [WHERE cond] [ORDER BY …] [LIMIT l] [OFFSET o] [SLIMIT sl] [SOFFSET so]`. -/
+def showTagKeysText (db : Str) (qs : List (Str × Str × Str)) (op : Token) (key : Option Expr) (c : Option Expr) (sf : List SortField)
+    (l o sl so : Int) : Str :=
+  onDbText db ++ (fromQualsText qs ++ (optKeyText op key ++ (whereText c ++ (orderText sf ++ (posText .LIMIT l ++
+    (posText .OFFSET o ++ (posText .SLIMIT sl ++ posText .SOFFSET so)))))))
+
+theorem showTagKeys_withKey_print_partial (db : Str) (qs : List (Str × Str × Str)) (op : Token) (key : Option Expr) (c : Option Expr)
+    (sf : List SortField) (l o sl so : Int) (hsf : sortOKB sf = true) :
+    (Statement.showTagKeys db (qs.map qualSrc) op key c sf l o sl so).print =
+      tx "SHOW TAG KEYS" ++ showTagKeysText db qs op key c sf l o sl so := by
+  cases key with
+  | none =>
+    have p1 : (Statement.showTagKeys db (qs.map qualSrc) op none c sf l o sl so).print =
+        tx "SHOW TAG KEYS" ++ clauseOn db ++ clauseFrom (qs.map qualSrc) ++ [] ++
+        clauseWhere c ++ clauseOrderBy sf ++ clausePos "LIMIT" l ++ clausePos "OFFSET" o ++ clausePos "SLIMIT" sl ++
+        clausePos "SOFFSET" so := rfl
+    rw [p1, clauseFrom_quals qs, clauseWhere_eq, clauseOn_onDbText, (clausePos_eq l).1, (clausePos_eq o).2.1,
+      (clausePos_eq sl).2.2.1, (clausePos_eq so).2.2.2, clauseOrderBy_eq sf hsf]
+    simp only [showTagKeysText, optKeyText, List.append_assoc, List.append_nil, List.nil_append]
+  | some k =>
+    have p1 : (Statement.showTagKeys db (qs.map qualSrc) op (some k) c sf l o sl so).print =
+        tx "SHOW TAG KEYS" ++ clauseOn db ++ clauseFrom (qs.map qualSrc) ++ printTagKey op k ++
+        clauseWhere c ++ clauseOrderBy sf ++ clausePos "LIMIT" l ++ clausePos "OFFSET" o ++ clausePos "SLIMIT" sl ++
+        clausePos "SOFFSET" so := rfl
+    rw [p1, printTagKey_eq, clauseFrom_quals qs, clauseWhere_eq, clauseOn_onDbText, (clausePos_eq l).1,
+      (clausePos_eq o).2.1, (clausePos_eq sl).2.2.1, (clausePos_eq so).2.2.2, clauseOrderBy_eq sf hsf]
+    simp only [showTagKeysText, optKeyText, List.append_assoc, List.append_nil]
+
+/-- The key clause of SHOW TAG KEYS: absent (the handler then returns the operator `ILLEGAL`), or as in
+`tagKeyOKB`. -/
+def optKeyOKB (op : Token) : Option Expr → Bool
+  | none => op == .ILLEGAL
+  | some key => tagKeyOKB op key
+
+/-- **Print → parse, SHOW TAG KEYS** `[ON db] [FROM m1, …] [WITH KEY = k | != k | =~ /re/ | !~ /re/ | IN (k1, …)]
+[WHERE cond] [ORDER BY [time] ASC|DESC] [LIMIT l] [OFFSET o] [SLIMIT sl] [SOFFSET so]` — `showTagKeys_print_parse_partial`
+extended by the key clause, `ORDER BY` (`sortOKB`) and the series limits. Partial: sources as in `showTagValues_print_parse_partial` (`QualOK`), `Printable` condition. -/
+theorem showTagKeys_withKey_print_parse_partial (fuel : Nat) (s : PState) (db : Str) (qs : List (Str × Str × Str)) (op : Token)
+    (key : Option Expr) (c : Option Expr) (sf : List SortField) (l o sl so : Int) (k : Str)
+    (hexdb : Expressible db) (hq : ∀ m ∈ qs, QualOK m) (hkey : optKeyOKB op key = true) (hc : CondOK c)
+    (hsf : sortOKB sf = true)
+    (hl : 0 ≤ l ∧ l ≤ maxInt64) (ho : 0 ≤ o ∧ o ≤ maxInt64) (hsl : 0 ≤ sl ∧ sl ≤ maxInt64)
+    (hso : 0 ≤ so ∧ so ≤ maxInt64) (hk : Follow k showStop)
+    (hs : s.Before (showTagKeysText db qs op key c sf l o sl so ++ k)) :
+    wp (runHandler fuel .parseShowTagKeysStatement) s
+      (fun st s' => st = .showTagKeys db (qs.map qualSrc) op key c sf l o sl so ∧ RT.Stand s' k) (· = .fuel) := by
+  have g6 : Follow (posText .SOFFSET so ++ k) [.EXACT, .CARDINALITY, .ON, .FROM, .COMMA, .WITH, .WHERE, .ORDER, .LIMIT, .OFFSET,
+      .SLIMIT] := Follow.opt (kwText_pos _ _) (by decide +kernel) rfl (by decide) (hk.mono (by decide))
+  have g5 : Follow (posText .SLIMIT sl ++ (posText .SOFFSET so ++ k)) [.EXACT, .CARDINALITY, .ON, .FROM, .COMMA, .WITH, .WHERE,
+      .ORDER, .LIMIT, .OFFSET] := Follow.opt (kwText_pos _ _) (by decide +kernel) rfl (by decide) (g6.mono (by decide))
+  have g4 : Follow (posText .OFFSET o ++ (posText .SLIMIT sl ++ (posText .SOFFSET so ++ k))) [.EXACT, .CARDINALITY, .ON, .FROM,
+      .COMMA, .WITH, .WHERE, .ORDER, .LIMIT] :=
+    Follow.opt (kwText_pos _ _) (by decide +kernel) rfl (by decide) (g5.mono (by decide))
+  have g3 : Follow (posText .LIMIT l ++ (posText .OFFSET o ++ (posText .SLIMIT sl ++ (posText .SOFFSET so ++ k))))
+      [.EXACT, .CARDINALITY, .ON, .FROM, .COMMA, .WITH, .WHERE, .ORDER] :=
+    Follow.opt (kwText_pos _ _) (by decide +kernel) rfl (by decide) (g4.mono (by decide))
+  have gO : Follow (orderText sf ++ (posText .LIMIT l ++ (posText .OFFSET o ++ (posText .SLIMIT sl ++ (posText .SOFFSET so ++ k)))))
+      [.EXACT, .CARDINALITY, .ON, .FROM, .COMMA, .WITH, .WHERE] :=
+    Follow.opt (kwText_order _) (by decide +kernel) rfl (by decide) (g3.mono (by decide))
+  have g2 : Follow (whereText c ++ (orderText sf ++ (posText .LIMIT l ++ (posText .OFFSET o ++ (posText .SLIMIT sl ++
+      (posText .SOFFSET so ++ k)))))) [.EXACT, .CARDINALITY, .ON, .FROM, .COMMA, .WITH] :=
+    Follow.opt (kwText_where _) (by decide +kernel) rfl (by decide) (gO.mono (by decide))
+  have gW : Follow (optKeyText op key ++ (whereText c ++ (orderText sf ++ (posText .LIMIT l ++ (posText .OFFSET o ++
+      (posText .SLIMIT sl ++ (posText .SOFFSET so ++ k))))))) [.EXACT, .CARDINALITY, .ON, .FROM, .COMMA] := by
+    cases key with
+    | none => exact g2.mono (by decide)
+    | some key => exact Follow.opt (kwText_withKey op key) (by decide +kernel) rfl (by decide) (g2.mono (by decide))
+  have gF : Follow (fromQualsText qs ++ (optKeyText op key ++ (whereText c ++ (orderText sf ++ (posText .LIMIT l ++
+      (posText .OFFSET o ++ (posText .SLIMIT sl ++ (posText .SOFFSET so ++ k)))))))) [.EXACT, .CARDINALITY, .ON] :=
+    Follow.opt (kwText_fromQuals _) (by decide +kernel) rfl (by decide) (gW.mono (by decide))
+  have hs0 : RT.Stand s (onDbText db ++ (fromQualsText qs ++ (optKeyText op key ++ (whereText c ++ (orderText sf ++
+      (posText .LIMIT l ++ (posText .OFFSET o ++ (posText .SLIMIT sl ++ (posText .SOFFSET so ++ k))))))))) := by
+    have := hs.stand
+    simpa only [showTagKeysText, List.append_assoc] using this
+  obtain ⟨s3, h3, st3⟩ := parseOnDb_stand s db _ hexdb (gF.mono (by decide)) hs0
+  obtain ⟨s4, h4, st4⟩ := parseOptFrom_quals s3 qs _ hq (gW.mono (by decide)) st3
+  -- the common tail
+  have tail : ∀ s6 : PState, RT.Stand s6 (whereText c ++ (orderText sf ++ (posText .LIMIT l ++ (posText .OFFSET o ++
+      (posText .SLIMIT sl ++ (posText .SOFFSET so ++ k)))))) →
+      wp (do
+        let cond ← parseCondition fuel
+        let sort ← parseOrderBy
+        let limit ← parseOptTokInt .LIMIT
+        let offset ← parseOptTokInt .OFFSET
+        let slimit ← parseOptTokInt .SLIMIT
+        let soffset ← parseOptTokInt .SOFFSET
+        pure (Statement.showTagKeys db (qs.map qualSrc) op key cond sort limit offset slimit soffset)) s6
+        (fun st s' => st = Statement.showTagKeys db (qs.map qualSrc) op key c sf l o sl so ∧ RT.Stand s' k)
+        (· = .fuel) := by
+    intro s6 st6
+    rw [wp_bind]
+    refine wp_mono (parseCondition_print fuel s6 c _ hc (gO.mono (by decide)) st6) ?_ (fun _ h => h)
+    intro c' s7 ⟨hc', st7⟩
+    subst hc'
+    obtain ⟨s8, h8, st8⟩ := parseOrderBy_print s7 sf _ hsf (g3.mono (by decide)) st7
+    obtain ⟨s9, h9, st9⟩ := parseOptTokInt_print .LIMIT (by decide +kernel) s8 l _ hl.1 hl.2 (g4.mono (by decide)) st8
+    obtain ⟨s10, h10, st10⟩ := parseOptTokInt_print .OFFSET (by decide +kernel) s9 o _ ho.1 ho.2 (g5.mono (by decide)) st9
+    obtain ⟨s11, h11, st11⟩ := parseOptTokInt_print .SLIMIT (by decide +kernel) s10 sl _ hsl.1 hsl.2 (g6.mono (by decide))
+      st10
+    obtain ⟨s12, h12, st12⟩ := parseOptTokInt_print .SOFFSET (by decide +kernel) s11 so k hso.1 hso.2 (hk.mono (by decide))
+      st11
+    rw [wp_bind, wp_of_run_ok h8, wp_bind, wp_of_run_ok h9, wp_bind, wp_of_run_ok h10, wp_bind, wp_of_run_ok h11,
+      wp_bind, wp_of_run_ok h12, wp_pure]
+    exact ⟨rfl, st12⟩
+  simp only [runHandler, parseShowTagKeys]
+  rw [wp_bind, wp_of_run_ok h3, wp_bind, wp_of_run_ok h4]
+  cases key with
+  | none =>
+    have hop : op = .ILLEGAL := by simpa [optKeyOKB] using hkey
+    subst hop
+    obtain ⟨lx, s5, h5, t5, st5⟩ := peek_stand s4 _ _ .WITH g2 (by decide)
+      (by simpa only [optKeyText, List.nil_append] using st4)
+    rw [wp_bind, wp_of_run_ok h5, wp_bind, unscan_wp]
+    simp only [t5, if_false, pure_bind]
+    exact tail (unsc s5) st5
+  | some key =>
+    have hst : RT.Starts (withKeyText op key ++ (whereText c ++ (orderText sf ++ (posText .LIMIT l ++ (posText .OFFSET o ++
+        (posText .SLIMIT sl ++ (posText .SOFFSET so ++ k))))))) .WITH := by
+      have := starts_kw .WITH (' ' :: (Token.KEY.str ++ ' ' :: (op.str ++ ' ' :: (tagKeyValText key ++ (whereText c ++
+        (orderText sf ++ (posText .LIMIT l ++ (posText .OFFSET o ++ (posText .SLIMIT sl ++ (posText .SOFFSET so ++ k))))))))))
+        (by decide +kernel) (WordEnd.blank _)
+      simpa only [withKeyText, List.append_assoc, List.cons_append] using this
+    obtain ⟨lx, s5, h5, t5, st5, _⟩ := RT.scanIW_starts s4 _ .WITH st4 hst
+    obtain ⟨s6, h6, b6⟩ := parseTagKeyExpr_print (unsc s5) op key _ hkey g2.tokEnd.1 st5
+    rw [wp_bind, wp_of_run_ok h5, wp_bind, unscan_wp]
+    simp only [t5, if_true]
+    rw [wp_bind, wp_bind, wp_of_run_ok h6]
+    dsimp only
+    rw [wp_pure]
+    exact tail s6 b6.stand
+
+/-- Non-vacuity: `SHOW TAG KEYS ON "my db" FROM cpu, "my m" WITH KEY =~ /^h/ WHERE … LIMIT 10 OFFSET 3 SLIMIT 2 SOFFSET 1`. -/
+def exTagKeysText : Str := showTagKeysText "my db".toList exQs .EQREGEX (some (.regex "^h".toList)) exCond [⟨[], false⟩] 10 3 2 1
+
+example : exTagKeysText = (" ON \"my db\" FROM \"my db\"..cpu, rp.m, m WITH KEY =~ /^h/ WHERE host = 'a' AND (x > -1 OR y =~ /^b/) " ++
+    "ORDER BY DESC LIMIT 10 OFFSET 3 SLIMIT 2 SOFFSET 1").toList := by decide +kernel
+
+section
+attribute [local irreducible] wp
+example : wp (runHandler 200 .parseShowTagKeysStatement) (PState.init exTagKeysText [] [])
+    (fun st s' => st = .showTagKeys "my db".toList (exQs.map qualSrc) .EQREGEX (some (.regex "^h".toList)) exCond
+      [⟨[], false⟩] 10 3 2 1 ∧ RT.Stand s' [eofRune]) (· = .fuel) :=
+  showTagKeys_withKey_print_parse_partial 200 (PState.init exTagKeysText [] []) "my db".toList exQs .EQREGEX
+    (some (.regex "^h".toList)) exCond [⟨[], false⟩] 10 3 2 1 [eofRune] (by decide +kernel) (by decide +kernel)
+    (by decide +kernel) (by decide +kernel) (by decide +kernel) (by decide) (by decide) (by decide) (by decide)
+    (Follow.eof _ (by decide))
+    (init_before exTagKeysText (by decide +kernel))
+end
+
+example : (match (runHandler 200 .parseShowTagKeysStatement).run (PState.init exTagKeysText [] []) with
+    | .ok _ => true
+    | .error _ => false) = true := by decide +kernel
+
+/-! ### end to end: `ParseStatement` on the whole printed statement
+
+The family theorems above start after the dispatch keywords. With `parseStatement_print` and the
+obligation `gen_adminShowPaths` they give the property in its own terms: `ParseStatement` on
+`stmt.String()` followed by `k` returns `stmt` and stops at `k`. -/
+
+/-- From the handler's theorem to `ParseStatement` (families with the fuel alternative). -/
+theorem statement_of_handler {Q : Statement → PState → Prop} {E : Fail → Prop} (fuel : Nat) (p : Str × List Token × Handler)
+    (hp : p ∈ adminShowPaths) (s : PState) (rest : Str) (hw : WordEnd rest) (hs : s.Before (p.1 ++ rest))
+    (H : ∀ s1 : PState, s1.Before rest → wp (runHandler fuel p.2.2) s1 Q E) :
+    wp (parseStatement fuel) s Q E := by
+  obtain ⟨hpr, hkw, hpath, hlen⟩ := gen_adminShowPaths p hp
+  rw [hpr] at hs
+  obtain ⟨s1, h1, b1⟩ := parseStatement_print fuel _ _ s [] rest hpath hkw hlen Gap.none hw hs
+  have := H s1 b1
+  unfold wp at this ⊢
+  rw [h1]
+  exact this
+
+theorem wordEnd_opt {x k : Str} (hx : OptText x) (hk : WordEnd k) : WordEnd (x ++ k) := by
+  rcases hx with rfl | ⟨y, rfl⟩
+  · exact hk
+  · exact WordEnd.blank _
+
+/-- **C02 for CREATE DATABASE … WITH** (partial as `createDatabase_with_print_parse_partial`). -/
+theorem createDatabase_with_statement_print_parse_partial (fuel : Nat) (s : PState) (name : Str) (d : Option Int)
+    (n : Option Nat) (sh : Int) (fu pa : Option Int) (rp k : Str)
+    (hex1 : Expressible name) (hex2 : Expressible rp) (hd : DurOK d)
+    (hn : ∀ v, n = some v → 1 ≤ v ∧ (v : Int) ≤ maxInt32) (hsh : 0 ≤ sh ∧ sh ≤ maxInt64) (hfu : DurOK fu) (hpa : DurOK pa)
+    (hfz : fu ≠ some 0) (hpz : pa ≠ some 0)
+    (hany : d.isSome ∨ n.isSome ∨ sh > 0 ∨ fu.isSome ∨ pa.isSome ∨ rp ≠ []) (hk : TokEnd k) (hke : IdentEnd rp k)
+    (hstop : ∀ t ∈ cdbKws, NextNot k t)
+    (hs : s.Before ((Statement.createDatabase name true d (n.map Int.ofNat) rp sh fu pa).print ++ k)) :
+    ∃ s', (parseStatement fuel).run s = .ok (.createDatabase name true d (n.map Int.ofNat) rp sh fu pa, s') ∧
+      s'.Around k := by
+  rw [createDatabase_with_print, List.append_assoc] at hs
+  obtain ⟨hpr, hkw, hpath, hlen⟩ := gen_adminShowPaths (tx "CREATE DATABASE", [.CREATE, .DATABASE],
+    .parseCreateDatabaseStatement) (by simp [adminShowPaths])
+  simp only at hpr hkw hpath hlen
+  rw [hpr] at hs
+  obtain ⟨s1, h1, b1⟩ := parseStatement_print fuel _ _ s [] (cdbText name d n sh fu pa rp ++ k) hpath hkw hlen Gap.none
+    (WordEnd.blank _) hs
+  obtain ⟨s', h2, b2⟩ := createDatabase_with_print_parse_partial fuel s1 name d n sh fu pa rp k hex1 hex2 hd hn hsh hfu hpa
+    hfz hpz hany hk hke hstop b1
+  exact ⟨s', by rw [h1]; exact h2, b2⟩
+
+/-- **C02 for SHOW TAG VALUES** (partial as `showTagValues_print_parse_partial`). -/
+theorem showTagValues_statement_print_parse_partial (fuel : Nat) (s : PState) (db : Str) (qs : List (Str × Str × Str)) (op : Token)
+    (key : Expr) (c : Option Expr) (sf : List SortField) (l o : Int) (k : Str)
+    (hexdb : Expressible db) (hq : ∀ m ∈ qs, QualOK m)
+    (hkey : tagKeyOKB op key = true) (hc : CondOK c) (hsf : sortOKB sf = true)
+    (hl : 0 ≤ l ∧ l ≤ maxInt64) (ho : 0 ≤ o ∧ o ≤ maxInt64) (hk : Follow k showStop)
+    (hs : s.Before ((Statement.showTagValues db (qs.map qualSrc) op (some key) c sf l o).print ++ k)) :
+    wp (parseStatement fuel) s
+      (fun st s' => st = .showTagValues db (qs.map qualSrc) op (some key) c sf l o ∧ RT.Stand s' k) (· = .fuel) := by
+  rw [showTagValues_print_partial db qs op key c sf l o hsf, List.append_assoc] at hs
+  refine statement_of_handler fuel (tx "SHOW TAG VALUES", [.SHOW, .TAG, .VALUES], .parseShowTagValuesStatement)
+    (by simp [adminShowPaths]) s _ ?_ hs
+    (fun s1 b1 => showTagValues_print_parse_partial fuel s1 db qs op key c sf l o k hexdb hq hkey hc hsf hl ho hk b1)
+  exact wordEnd_opt (OptText.append (kwText_onDb db).optText (OptText.append (kwText_fromQuals qs).optText
+    (Or.inr ⟨_, rfl⟩))) hk.tokEnd.1
+
+/-- **C02 for SHOW TAG KEYS** (partial as `showTagKeys_withKey_print_parse_partial`). -/
+theorem showTagKeys_statement_print_parse_partial (fuel : Nat) (s : PState) (db : Str) (qs : List (Str × Str × Str)) (op : Token)
+    (key : Option Expr) (c : Option Expr) (sf : List SortField) (l o sl so : Int) (k : Str)
+    (hexdb : Expressible db) (hq : ∀ m ∈ qs, QualOK m)
+    (hkey : optKeyOKB op key = true) (hc : CondOK c) (hsf : sortOKB sf = true)
+    (hl : 0 ≤ l ∧ l ≤ maxInt64) (ho : 0 ≤ o ∧ o ≤ maxInt64) (hsl : 0 ≤ sl ∧ sl ≤ maxInt64)
+    (hso : 0 ≤ so ∧ so ≤ maxInt64) (hk : Follow k showStop)
+    (hs : s.Before ((Statement.showTagKeys db (qs.map qualSrc) op key c sf l o sl so).print ++ k)) :
+    wp (parseStatement fuel) s
+      (fun st s' => st = .showTagKeys db (qs.map qualSrc) op key c sf l o sl so ∧ RT.Stand s' k) (· = .fuel) := by
+  rw [showTagKeys_withKey_print_partial db qs op key c sf l o sl so hsf, List.append_assoc] at hs
+  refine statement_of_handler fuel (tx "SHOW TAG KEYS", [.SHOW, .TAG, .KEYS], .parseShowTagKeysStatement)
+    (by simp [adminShowPaths]) s _ ?_ hs
+    (fun s1 b1 => showTagKeys_withKey_print_parse_partial fuel s1 db qs op key c sf l o sl so k hexdb hq hkey hc hsf hl ho
+      hsl hso hk b1)
+  have hkey' : OptText (optKeyText op key) := by
+    cases key with
+    | none => exact Or.inl rfl
+    | some key => exact Or.inr ⟨_, rfl⟩
+  exact wordEnd_opt (OptText.append (kwText_onDb db).optText (OptText.append (kwText_fromQuals qs).optText
+    (OptText.append hkey' (OptText.append (kwText_where c).optText (OptText.append (kwText_order sf).optText
+    (OptText.append (kwText_pos _ l).optText (OptText.append (kwText_pos _ o).optText
+    (OptText.append (kwText_pos _ sl).optText (kwText_pos _ so).optText)))))))) hk.tokEnd.1
+
+/-- **C02 for SHOW MEASUREMENTS** (partial as `showMeasurements_full_print_parse_partial`). -/
+theorem showMeasurements_statement_print_parse_partial (fuel : Nat) (s : PState) (db rp : Str) (wdb wrp : Bool)
+    (m : MeasSpec) (c : Option Expr) (sf : List SortField) (l o : Int) (k : Str)
+    (hex1 : Expressible db) (hex2 : Expressible rp) (hon : OnMeasOK db rp wdb wrp) (hm : m.okB = true)
+    (hmn : ∀ n, m = .name n → n ≠ []) (hc : CondOK c) (hsf : sortOKB sf = true)
+    (hl : 0 ≤ l ∧ l ≤ maxInt64) (ho : 0 ≤ o ∧ o ≤ maxInt64) (hk : Follow k showMeasStop)
+    (hs : s.Before ((Statement.showMeasurements db rp wdb wrp m.source c sf l o).print ++ k)) :
+    wp (parseStatement fuel) s
+      (fun st s' => st = .showMeasurements db rp wdb wrp m.source c sf l o ∧ RT.Stand s' k) (· = .fuel) := by
+  rw [showMeasurements_full_print_partial db rp wdb wrp m c sf l o hmn hsf, List.append_assoc] at hs
+  refine statement_of_handler fuel (tx "SHOW MEASUREMENTS", [.SHOW, .MEASUREMENTS], .parseShowMeasurementsStatement)
+    (by simp [adminShowPaths]) s _ ?_ hs
+    (fun s1 b1 => showMeasurements_full_print_parse_partial fuel s1 db rp wdb wrp m c sf l o k hex1 hex2 hon hm hc hsf hl ho
+      hk b1)
+  exact wordEnd_opt (OptText.append (kwText_onMeas db rp wdb wrp).optText (OptText.append (kwText_withMeas m).optText
+    (OptText.append (kwText_where c).optText (OptText.append (kwText_order sf).optText
+    (OptText.append (kwText_pos _ l).optText (kwText_pos _ o).optText))))) hk.tokEnd.1
+
+/-- **C02 for the five cardinality statements** (partial as the family theorems). -/
+theorem cardinality_statement_print_parse_partial (fuel : Nat) (s : PState) (db : Str) (ex : Bool) (qs : List (Str × Str × Str))
+    (op : Token) (key : Expr) (c : Option Expr) (ds : List Expr) (l o : Int) (k : Str)
+    (hexdb : Expressible db) (hq : ∀ m ∈ qs, QualOK m)
+    (hkey : tagKeyOKB op key = true) (hc : CondOK c) (hds : ∀ x ∈ ds, RT.rtOK false x = true)
+    (hl : 0 ≤ l ∧ l ≤ maxInt64) (ho : 0 ≤ o ∧ o ≤ maxInt64) (hk : Follow k cardStop) :
+    (s.Before ((Statement.showSeriesCardinality db ex (qs.map qualSrc) c ds l o).print ++ k) →
+      wp (parseStatement fuel) s
+        (fun st s' => st = .showSeriesCardinality db ex (qs.map qualSrc) c ds l o ∧ RT.Stand s' k) (· = .fuel)) ∧
+    (s.Before ((Statement.showMeasurementCardinality ex db (qs.map qualSrc) c ds l o).print ++ k) →
+      wp (parseStatement fuel) s
+        (fun st s' => st = .showMeasurementCardinality ex db (qs.map qualSrc) c ds l o ∧ RT.Stand s' k) (· = .fuel)) ∧
+    (s.Before ((Statement.showTagKeyCardinality db ex (qs.map qualSrc) c ds l o).print ++ k) →
+      wp (parseStatement fuel) s
+        (fun st s' => st = .showTagKeyCardinality db ex (qs.map qualSrc) c ds l o ∧ RT.Stand s' k) (· = .fuel)) ∧
+    (s.Before ((Statement.showFieldKeyCardinality db ex (qs.map qualSrc) c ds l o).print ++ k) →
+      wp (parseStatement fuel) s
+        (fun st s' => st = .showFieldKeyCardinality db ex (qs.map qualSrc) c ds l o ∧ RT.Stand s' k) (· = .fuel)) ∧
+    (s.Before ((Statement.showTagValuesCardinality db ex (qs.map qualSrc) op (some key) c ds l o).print ++ k) →
+      wp (parseStatement fuel) s
+        (fun st s' => st = .showTagValuesCardinality db ex (qs.map qualSrc) op (some key) c ds l o ∧ RT.Stand s' k)
+        (· = .fuel)) := by
+  obtain ⟨p1, p2, p3, p4, p5⟩ := cardinality_print_partial db ex qs op key c ds l o
+  have hw : ∀ x : Str, WordEnd (exactCardText ex ++ x ++ k) := by
+    intro x
+    cases ex with
+    | true => exact WordEnd.blank _
+    | false => exact WordEnd.blank _
+  refine ⟨?_, ?_, ?_, ?_, ?_⟩
+  · intro hs
+    rw [p1, List.append_assoc] at hs
+    exact statement_of_handler fuel (tx "SHOW SERIES", [.SHOW, .SERIES], .parseShowSeriesStatement)
+      (by simp [adminShowPaths]) s _ (hw _) hs
+      (fun s1 b1 => showSeriesCardinality_print_parse_partial db qs c ds l o k ex fuel s1 hexdb hq hc hds hl ho hk b1)
+  · intro hs
+    rw [p2] at hs
+    cases ex with
+    | true =>
+      have e : tx "SHOW MEASUREMENT" ++ (exactCardText true ++ cardText db qs c ds l o) ++ k =
+          tx "SHOW MEASUREMENT EXACT" ++ ((' ' :: Token.CARDINALITY.str) ++ cardText db qs c ds l o ++ k) := by
+        have e1 : tx "SHOW MEASUREMENT" ++ exactCardText true = tx "SHOW MEASUREMENT EXACT" ++ (' ' :: Token.CARDINALITY.str) := by
+          decide +kernel
+        rw [← List.append_assoc (tx "SHOW MEASUREMENT"), e1]
+        simp only [List.append_assoc]
+      rw [e] at hs
+      exact statement_of_handler fuel (tx "SHOW MEASUREMENT EXACT", [.SHOW, .MEASUREMENT, .EXACT],
+        .parseShowMeasurementCardinalityStatement_true) (by simp [adminShowPaths]) s
+        ((' ' :: Token.CARDINALITY.str) ++ cardText db qs c ds l o ++ k) (WordEnd.blank _) hs
+        (fun s1 b1 => showMeasurementCardinality_print_parse_partial db qs c ds l o k true fuel s1 hexdb hq hc hds hl ho hk
+          (by simpa only [if_true] using b1))
+    | false =>
+      have e : tx "SHOW MEASUREMENT" ++ (exactCardText false ++ cardText db qs c ds l o) ++ k =
+          tx "SHOW MEASUREMENT CARDINALITY" ++ (cardText db qs c ds l o ++ k) := by
+        have e1 : tx "SHOW MEASUREMENT" ++ exactCardText false = tx "SHOW MEASUREMENT CARDINALITY" := by decide +kernel
+        rw [← List.append_assoc (tx "SHOW MEASUREMENT"), e1]
+        simp only [List.append_assoc]
+      rw [e] at hs
+      have hwc : WordEnd (cardText db qs c ds l o ++ k) :=
+        wordEnd_opt (OptText.append (kwText_onDb db).optText (OptText.append (kwText_fromQuals qs).optText
+          (OptText.append (kwText_where c).optText (OptText.append (kwText_group ds).optText
+          (OptText.append (kwText_pos _ l).optText (kwText_pos _ o).optText))))) hk.tokEnd.1
+      exact statement_of_handler fuel (tx "SHOW MEASUREMENT CARDINALITY", [.SHOW, .MEASUREMENT, .CARDINALITY],
+        .parseShowMeasurementCardinalityStatement_false) (by simp [adminShowPaths]) s _ hwc hs
+        (fun s1 b1 => showMeasurementCardinality_print_parse_partial db qs c ds l o k false fuel s1 hexdb hq hc hds hl ho hk
+          (by simpa only [Bool.false_eq_true, if_false, List.nil_append] using b1))
+  · intro hs
+    rw [p3, List.append_assoc] at hs
+    exact statement_of_handler fuel (tx "SHOW TAG KEY", [.SHOW, .TAG, .KEY], .parseShowTagKeyCardinalityStatement)
+      (by simp [adminShowPaths]) s _ (hw _) hs
+      (fun s1 b1 => (showKeyCardinality_print_parse_partial db qs c ds l o k ex fuel s1 hexdb hq hc hds hl ho hk b1).1)
+  · intro hs
+    rw [p4, List.append_assoc] at hs
+    exact statement_of_handler fuel (tx "SHOW FIELD KEY", [.SHOW, .FIELD, .KEY], .parseShowFieldKeyCardinalityStatement)
+      (by simp [adminShowPaths]) s _ (hw _) hs
+      (fun s1 b1 => (showKeyCardinality_print_parse_partial db qs c ds l o k ex fuel s1 hexdb hq hc hds hl ho hk b1).2)
+  · intro hs
+    rw [p5, List.append_assoc] at hs
+    exact statement_of_handler fuel (tx "SHOW TAG VALUES", [.SHOW, .TAG, .VALUES], .parseShowTagValuesStatement)
+      (by simp [adminShowPaths]) s _ (hw _) hs
+      (fun s1 b1 => showTagValuesCardinality_print_parse_partial db qs c ds l o k ex fuel s1 op key hexdb hq hkey hc hds hl
+        ho hk b1)
+
+/-- Non-vacuity, end to end: `ParseStatement` on the printed statements themselves. -/
+def exTagValuesStmt : Statement :=
+  .showTagValues "my db".toList (exQs.map qualSrc) .IN (some exKeyIn) exCond exSort 10 3
+def exCardStmt : Statement :=
+  .showMeasurementCardinality true "my db".toList (exQs.map qualSrc) exCond exDims 10 3
+
+example : exTagValuesStmt.print = ("SHOW TAG VALUES ON \"my db\" FROM \"my db\"..cpu, rp.m, m WITH KEY IN (host, \"my tag\", \"select\") " ++
+      "WHERE host = 'a' AND (x > -1 OR y =~ /^b/) ORDER BY time DESC LIMIT 10 OFFSET 3").toList ∧
+    exCardStmt.print = ("SHOW MEASUREMENT EXACT CARDINALITY ON \"my db\" FROM \"my db\"..cpu, rp.m, m " ++
+      "WHERE host = 'a' AND (x > -1 OR y =~ /^b/) GROUP BY host, \"my tag\" LIMIT 10 OFFSET 3").toList := by
+  decide +kernel
+
+section
+attribute [local irreducible] wp
+example : wp (parseStatement 200) (PState.init exTagValuesStmt.print [] [])
+    (fun st s' => st = exTagValuesStmt ∧ RT.Stand s' [eofRune]) (· = .fuel) :=
+  showTagValues_statement_print_parse_partial 200 (PState.init exTagValuesStmt.print [] []) "my db".toList exQs .IN exKeyIn
+    exCond exSort 10 3 [eofRune] (by decide +kernel) (by decide +kernel) (by decide +kernel) (by decide +kernel)
+    (by decide +kernel) (by decide) (by decide) (Follow.eof _ (by decide))
+    (init_before exTagValuesStmt.print (by decide +kernel))
+
+example : wp (parseStatement 200) (PState.init exCardStmt.print [] [])
+    (fun st s' => st = exCardStmt ∧ RT.Stand s' [eofRune]) (· = .fuel) :=
+  (cardinality_statement_print_parse_partial 200 (PState.init exCardStmt.print [] []) "my db".toList true exQs .EQ
+    (.string ['k']) exCond exDims 10 3 [eofRune] (by decide +kernel) (by decide +kernel) (by decide +kernel)
+    (by decide +kernel) (by decide +kernel) (by decide) (by decide) (Follow.eof _ (by decide))).2.1
+    (init_before exCardStmt.print (by decide +kernel))
+end
+
+example : (match (parseStatement 200).run (PState.init exTagValuesStmt.print [] []) with
+    | .ok _ => true
+    | .error _ => false) = true := by decide +kernel
+
+/-! ### the same families with conditions of the wide class
+
+`Printable` excludes calls, number and duration literals in conditions (`time > now() - 1h`). C03's wide class
+(`RT.wOK tbl`, `CondOKW`) covers them; it depends on the lower-casing table of the parser state *at the WHERE
+clause*. The clause parsers before it do not change the table (`tot_frame`: C04's totality contracts), given
+the ring invariant at the start (`Fr s`, true of `PState.init`: `Fr.init`). -/
+
+/-- `showTagValues_print_parse_partial` with a condition of the wide class. -/
+theorem showTagValues_print_parse_wide_partial (fuel : Nat) (s : PState) (db : Str) (qs : List (Str × Str × Str)) (op : Token)
+    (key : Expr) (c : Option Expr) (sf : List SortField) (l o : Int) (k : Str)
+    (hexdb : Expressible db) (hq : ∀ m ∈ qs, QualOK m) (hkey : tagKeyOKB op key = true)
+    (hg : Fr s) (hc : CondOKW s.lowerTbl c)
+    (hsf : sortOKB sf = true)
+    (hl : 0 ≤ l ∧ l ≤ maxInt64) (ho : 0 ≤ o ∧ o ≤ maxInt64) (hk : Follow k showStop)
+    (hs : s.Before (showTagValuesText db qs op key c sf l o ++ k)) :
+    wp (runHandler fuel .parseShowTagValuesStatement) s
+      (fun st s' => st = .showTagValues db (qs.map qualSrc) op (some key) c sf l o ∧ RT.Stand s' k) (· = .fuel) := by
+  obtain ⟨g4, g3, gO, g2⟩ := showOrder_follow c sf l o k hk
+  have gW : Follow (withKeyText op key ++ (whereText c ++ (orderText sf ++ (posText .LIMIT l ++ (posText .OFFSET o ++ k)))))
+      [.EXACT, .CARDINALITY, .ON, .FROM, .COMMA] :=
+    Follow.opt (kwText_withKey op key) (by decide +kernel) rfl (by decide) (g2.mono (by decide))
+  have gF : Follow (fromQualsText qs ++ (withKeyText op key ++ (whereText c ++ (orderText sf ++ (posText .LIMIT l ++ (posText .OFFSET o ++ k))))))
+      [.EXACT, .CARDINALITY, .ON] :=
+    Follow.opt (kwText_fromQuals _) (by decide +kernel) rfl (by decide) (gW.mono (by decide))
+  have g0 : Follow (onDbText db ++ (fromQualsText qs ++ (withKeyText op key ++ (whereText c ++ (orderText sf ++ (posText .LIMIT l ++
+      (posText .OFFSET o ++ k))))))) [.EXACT, .CARDINALITY] :=
+    Follow.opt (kwText_onDb _) (by decide +kernel) rfl (by decide) (gF.mono (by decide))
+  have hs0 : RT.Stand s (onDbText db ++ (fromQualsText qs ++ (withKeyText op key ++ (whereText c ++ (orderText sf ++ (posText .LIMIT l ++
+      (posText .OFFSET o ++ k))))))) := by
+    have := hs.stand
+    simpa only [showTagValuesText, List.append_assoc] using this
+  obtain ⟨_, T, hT, _, hnot⟩ := g0
+  obtain ⟨lx, s1, h1, t1, st1, _⟩ := RT.scanIW_starts s _ T hs0 hT
+  have hne1 : ¬ lx.tok = .EXACT := by rw [t1]; intro e; exact hnot (by rw [e]; simp)
+  have hne2 : ¬ lx.tok = .CARDINALITY := by rw [t1]; intro e; exact hnot (by rw [e]; simp)
+  obtain ⟨f1, m1⟩ := peek_frame .EXACT h1 hne1 hg
+  obtain ⟨s3, h3, st3⟩ := parseOnDb_stand (unsc s1) db _ hexdb (gF.mono (by decide)) st1
+  obtain ⟨f3, m3⟩ := tot_frame (fun _ => parseOnDb_tot) h3 f1
+  obtain ⟨s4, h4, st4⟩ := parseOptFrom_quals s3 qs _ hq (gW.mono (by decide)) st3
+  obtain ⟨f4, m4⟩ := tot_frame (fun _ => parseOptFrom_tot) h4 f3
+  obtain ⟨s5, h5, b5⟩ := parseTagKeyExpr_print s4 op key _ hkey g2.tokEnd.1 st4
+  obtain ⟨_, m5⟩ := tot_frame (fun _ => parseTagKeyExpr_tot) h5 f4
+  have hc5 : CondOKW s5.lowerTbl c := by rw [(((m1.trans m3).trans m4).trans m5).2]; exact hc
+  simp only [runHandler, parseShowTagValues]
+  rw [wp_bind, wp_of_run_ok h1]
+  simp only [hne1, hne2, if_false]
+  rw [wp_bind, unscan_wp, wp_bind, wp_of_run_ok h3, wp_bind, wp_of_run_ok h4, wp_bind, wp_of_run_ok h5]
+  dsimp only
+  rw [wp_bind]
+  refine wp_mono (parseCondition_printW fuel s5 c _ hc5 (gO.mono (by decide)) b5.stand) ?_ (fun _ h => h)
+  intro c' s6 ⟨hc', st6, _⟩
+  subst hc'
+  obtain ⟨s7, h7, st7⟩ := parseOrderBy_print s6 sf _ hsf (g3.mono (by decide)) st6
+  obtain ⟨s8, h8, st8⟩ := parseOptTokInt_print .LIMIT (by decide +kernel) s7 l _ hl.1 hl.2 (g4.mono (by decide)) st7
+  obtain ⟨s9, h9, st9⟩ := parseOptTokInt_print .OFFSET (by decide +kernel) s8 o k ho.1 ho.2 (hk.mono (by decide)) st8
+  rw [wp_bind, wp_of_run_ok h7, wp_bind, wp_of_run_ok h8, wp_bind, wp_of_run_ok h9, wp_pure]
+  exact ⟨rfl, st9⟩
+
+/-- `showMeasurements_full_print_parse_partial` with a condition of the wide class. -/
+theorem showMeasurements_full_print_parse_wide_partial (fuel : Nat) (s : PState) (db rp : Str) (wdb wrp : Bool) (m : MeasSpec)
+    (c : Option Expr) (sf : List SortField) (l o : Int) (k : Str)
+    (hex1 : Expressible db) (hex2 : Expressible rp) (hon : OnMeasOK db rp wdb wrp) (hm : m.okB = true)
+    (hg : Fr s) (hc : CondOKW s.lowerTbl c)
+    (hsf : sortOKB sf = true)
+    (hl : 0 ≤ l ∧ l ≤ maxInt64) (ho : 0 ≤ o ∧ o ≤ maxInt64) (hk : Follow k showMeasStop)
+    (hs : s.Before (showMeasText db rp wdb wrp m c sf l o ++ k)) :
+    wp (runHandler fuel .parseShowMeasurementsStatement) s
+      (fun st s' => st = .showMeasurements db rp wdb wrp m.source c sf l o ∧ RT.Stand s' k) (· = .fuel) := by
+  have g4 : Follow (posText .OFFSET o ++ k) [.DOT, .ON, .WITH, .WHERE, .ORDER, .COMMA, .LIMIT] :=
+    Follow.opt (kwText_pos _ _) (by decide +kernel) rfl (by decide) (hk.mono (by decide))
+  have g3 : Follow (posText .LIMIT l ++ (posText .OFFSET o ++ k)) [.DOT, .ON, .WITH, .WHERE, .ORDER, .COMMA] :=
+    Follow.opt (kwText_pos _ _) (by decide +kernel) rfl (by decide) (g4.mono (by decide))
+  have gO : Follow (orderText sf ++ (posText .LIMIT l ++ (posText .OFFSET o ++ k))) [.DOT, .ON, .WITH, .WHERE] :=
+    Follow.opt (kwText_order _) (by decide +kernel) rfl (by decide) (g3.mono (by decide))
+  have g2 : Follow (whereText c ++ (orderText sf ++ (posText .LIMIT l ++ (posText .OFFSET o ++ k)))) [.DOT, .ON, .WITH] :=
+    Follow.opt (kwText_where _) (by decide +kernel) rfl (by decide) (gO.mono (by decide))
+  have g1 : Follow (withMeasText m ++ (whereText c ++ (orderText sf ++ (posText .LIMIT l ++ (posText .OFFSET o ++ k)))))
+      [.DOT, .ON] :=
+    Follow.opt (kwText_withMeas _) (by decide +kernel) rfl (by decide) (g2.mono (by decide))
+  have hs0 : RT.Stand s (onMeasText db rp wdb wrp ++ (withMeasText m ++ (whereText c ++ (orderText sf ++ (posText .LIMIT l ++
+      (posText .OFFSET o ++ k)))))) := by
+    have := hs.stand
+    simpa only [showMeasText, List.append_assoc] using this
+  obtain ⟨s1, h1, st1⟩ := parseOnMeas_print s db rp wdb wrp _ hex1 hex2 hon (g1.mono (by decide)) hs0
+  obtain ⟨f1, m1⟩ := tot_frame (fun _ => parseOnMeas_tot) h1 hg
+  obtain ⟨s2, h2, st2⟩ := parseWithMeas_print s1 m _ hm (g2.mono (by decide)) st1
+  obtain ⟨_, m2⟩ := tot_frame (fun _ => parseWithMeas_tot) h2 f1
+  have hc2 : CondOKW s2.lowerTbl c := by rw [(m1.trans m2).2]; exact hc
+  simp only [runHandler]
+  rw [parseShowMeasurements_eq, wp_bind, wp_of_run_ok h1]
+  dsimp only
+  rw [wp_bind, wp_of_run_ok h2, wp_bind]
+  refine wp_mono (parseCondition_printW fuel s2 c _ hc2 (gO.mono (by decide)) st2) ?_ (fun _ h => h)
+  intro c' s5 ⟨hc', st5, _⟩
+  subst hc'
+  obtain ⟨s6, h6, st6⟩ := parseOrderBy_print s5 sf _ hsf (g3.mono (by decide)) st5
+  obtain ⟨s7, h7, st7⟩ := parseOptTokInt_print .LIMIT (by decide +kernel) s6 l _ hl.1 hl.2 (g4.mono (by decide)) st6
+  obtain ⟨s8, h8, st8⟩ := parseOptTokInt_print .OFFSET (by decide +kernel) s7 o k ho.1 ho.2 (hk.mono (by decide)) st7
+  rw [wp_bind, wp_of_run_ok h6, wp_bind, wp_of_run_ok h7, wp_bind, wp_of_run_ok h8, wp_pure]
+  exact ⟨rfl, st8⟩
+
+/-- `showTagKeys_withKey_print_parse_partial` with a condition of the wide class. -/
+theorem showTagKeys_withKey_print_parse_wide_partial (fuel : Nat) (s : PState) (db : Str) (qs : List (Str × Str × Str)) (op : Token)
+    (key : Option Expr) (c : Option Expr) (sf : List SortField) (l o sl so : Int) (k : Str)
+    (hexdb : Expressible db) (hq : ∀ m ∈ qs, QualOK m) (hkey : optKeyOKB op key = true)
+    (hg : Fr s) (hc : CondOKW s.lowerTbl c)
+    (hsf : sortOKB sf = true)
+    (hl : 0 ≤ l ∧ l ≤ maxInt64) (ho : 0 ≤ o ∧ o ≤ maxInt64) (hsl : 0 ≤ sl ∧ sl ≤ maxInt64)
+    (hso : 0 ≤ so ∧ so ≤ maxInt64) (hk : Follow k showStop)
+    (hs : s.Before (showTagKeysText db qs op key c sf l o sl so ++ k)) :
+    wp (runHandler fuel .parseShowTagKeysStatement) s
+      (fun st s' => st = .showTagKeys db (qs.map qualSrc) op key c sf l o sl so ∧ RT.Stand s' k) (· = .fuel) := by
+  have g6 : Follow (posText .SOFFSET so ++ k) [.EXACT, .CARDINALITY, .ON, .FROM, .COMMA, .WITH, .WHERE, .ORDER, .LIMIT, .OFFSET,
+      .SLIMIT] := Follow.opt (kwText_pos _ _) (by decide +kernel) rfl (by decide) (hk.mono (by decide))
+  have g5 : Follow (posText .SLIMIT sl ++ (posText .SOFFSET so ++ k)) [.EXACT, .CARDINALITY, .ON, .FROM, .COMMA, .WITH, .WHERE,
+      .ORDER, .LIMIT, .OFFSET] := Follow.opt (kwText_pos _ _) (by decide +kernel) rfl (by decide) (g6.mono (by decide))
+  have g4 : Follow (posText .OFFSET o ++ (posText .SLIMIT sl ++ (posText .SOFFSET so ++ k))) [.EXACT, .CARDINALITY, .ON, .FROM,
+      .COMMA, .WITH, .WHERE, .ORDER, .LIMIT] :=
+    Follow.opt (kwText_pos _ _) (by decide +kernel) rfl (by decide) (g5.mono (by decide))
+  have g3 : Follow (posText .LIMIT l ++ (posText .OFFSET o ++ (posText .SLIMIT sl ++ (posText .SOFFSET so ++ k))))
+      [.EXACT, .CARDINALITY, .ON, .FROM, .COMMA, .WITH, .WHERE, .ORDER] :=
+    Follow.opt (kwText_pos _ _) (by decide +kernel) rfl (by decide) (g4.mono (by decide))
+  have gO : Follow (orderText sf ++ (posText .LIMIT l ++ (posText .OFFSET o ++ (posText .SLIMIT sl ++ (posText .SOFFSET so ++ k)))))
+      [.EXACT, .CARDINALITY, .ON, .FROM, .COMMA, .WITH, .WHERE] :=
+    Follow.opt (kwText_order _) (by decide +kernel) rfl (by decide) (g3.mono (by decide))
+  have g2 : Follow (whereText c ++ (orderText sf ++ (posText .LIMIT l ++ (posText .OFFSET o ++ (posText .SLIMIT sl ++
+      (posText .SOFFSET so ++ k)))))) [.EXACT, .CARDINALITY, .ON, .FROM, .COMMA, .WITH] :=
+    Follow.opt (kwText_where _) (by decide +kernel) rfl (by decide) (gO.mono (by decide))
+  have gW : Follow (optKeyText op key ++ (whereText c ++ (orderText sf ++ (posText .LIMIT l ++ (posText .OFFSET o ++
+      (posText .SLIMIT sl ++ (posText .SOFFSET so ++ k))))))) [.EXACT, .CARDINALITY, .ON, .FROM, .COMMA] := by
+    cases key with
+    | none => exact g2.mono (by decide)
+    | some key => exact Follow.opt (kwText_withKey op key) (by decide +kernel) rfl (by decide) (g2.mono (by decide))
+  have gF : Follow (fromQualsText qs ++ (optKeyText op key ++ (whereText c ++ (orderText sf ++ (posText .LIMIT l ++
+      (posText .OFFSET o ++ (posText .SLIMIT sl ++ (posText .SOFFSET so ++ k)))))))) [.EXACT, .CARDINALITY, .ON] :=
+    Follow.opt (kwText_fromQuals _) (by decide +kernel) rfl (by decide) (gW.mono (by decide))
+  have hs0 : RT.Stand s (onDbText db ++ (fromQualsText qs ++ (optKeyText op key ++ (whereText c ++ (orderText sf ++
+      (posText .LIMIT l ++ (posText .OFFSET o ++ (posText .SLIMIT sl ++ (posText .SOFFSET so ++ k))))))))) := by
+    have := hs.stand
+    simpa only [showTagKeysText, List.append_assoc] using this
+  obtain ⟨s3, h3, st3⟩ := parseOnDb_stand s db _ hexdb (gF.mono (by decide)) hs0
+  obtain ⟨f3, m3⟩ := tot_frame (fun _ => parseOnDb_tot) h3 hg
+  obtain ⟨s4, h4, st4⟩ := parseOptFrom_quals s3 qs _ hq (gW.mono (by decide)) st3
+  obtain ⟨f4, m4⟩ := tot_frame (fun _ => parseOptFrom_tot) h4 f3
+  -- the common tail
+  have tail : ∀ s6 : PState, RT.Same s s6 → RT.Stand s6 (whereText c ++ (orderText sf ++ (posText .LIMIT l ++ (posText .OFFSET o ++
+      (posText .SLIMIT sl ++ (posText .SOFFSET so ++ k)))))) →
+      wp (do
+        let cond ← parseCondition fuel
+        let sort ← parseOrderBy
+        let limit ← parseOptTokInt .LIMIT
+        let offset ← parseOptTokInt .OFFSET
+        let slimit ← parseOptTokInt .SLIMIT
+        let soffset ← parseOptTokInt .SOFFSET
+        pure (Statement.showTagKeys db (qs.map qualSrc) op key cond sort limit offset slimit soffset)) s6
+        (fun st s' => st = Statement.showTagKeys db (qs.map qualSrc) op key c sf l o sl so ∧ RT.Stand s' k)
+        (· = .fuel) := by
+    intro s6 m6 st6
+    have hc6 : CondOKW s6.lowerTbl c := by rw [m6.2]; exact hc
+    rw [wp_bind]
+    refine wp_mono (parseCondition_printW fuel s6 c _ hc6 (gO.mono (by decide)) st6) ?_ (fun _ h => h)
+    intro c' s7 ⟨hc', st7, _⟩
+    subst hc'
+    obtain ⟨s8, h8, st8⟩ := parseOrderBy_print s7 sf _ hsf (g3.mono (by decide)) st7
+    obtain ⟨s9, h9, st9⟩ := parseOptTokInt_print .LIMIT (by decide +kernel) s8 l _ hl.1 hl.2 (g4.mono (by decide)) st8
+    obtain ⟨s10, h10, st10⟩ := parseOptTokInt_print .OFFSET (by decide +kernel) s9 o _ ho.1 ho.2 (g5.mono (by decide)) st9
+    obtain ⟨s11, h11, st11⟩ := parseOptTokInt_print .SLIMIT (by decide +kernel) s10 sl _ hsl.1 hsl.2 (g6.mono (by decide))
+      st10
+    obtain ⟨s12, h12, st12⟩ := parseOptTokInt_print .SOFFSET (by decide +kernel) s11 so k hso.1 hso.2 (hk.mono (by decide))
+      st11
+    rw [wp_bind, wp_of_run_ok h8, wp_bind, wp_of_run_ok h9, wp_bind, wp_of_run_ok h10, wp_bind, wp_of_run_ok h11,
+      wp_bind, wp_of_run_ok h12, wp_pure]
+    exact ⟨rfl, st12⟩
+  simp only [runHandler, parseShowTagKeys]
+  rw [wp_bind, wp_of_run_ok h3, wp_bind, wp_of_run_ok h4]
+  cases key with
+  | none =>
+    have hop : op = .ILLEGAL := by simpa [optKeyOKB] using hkey
+    subst hop
+    obtain ⟨lx, s5, h5, t5, st5⟩ := peek_stand s4 _ _ .WITH g2 (by decide)
+      (by simpa only [optKeyText, List.nil_append] using st4)
+    rw [wp_bind, wp_of_run_ok h5, wp_bind, unscan_wp]
+    simp only [t5, if_false, pure_bind]
+    obtain ⟨_, m5⟩ := peek_frame .WITH h5 t5 f4
+    exact tail (unsc s5) ((m3.trans m4).trans m5) st5
+  | some key =>
+    have hst : RT.Starts (withKeyText op key ++ (whereText c ++ (orderText sf ++ (posText .LIMIT l ++ (posText .OFFSET o ++
+        (posText .SLIMIT sl ++ (posText .SOFFSET so ++ k))))))) .WITH := by
+      have := starts_kw .WITH (' ' :: (Token.KEY.str ++ ' ' :: (op.str ++ ' ' :: (tagKeyValText key ++ (whereText c ++
+        (orderText sf ++ (posText .LIMIT l ++ (posText .OFFSET o ++ (posText .SLIMIT sl ++ (posText .SOFFSET so ++ k))))))))))
+        (by decide +kernel) (WordEnd.blank _)
+      simpa only [withKeyText, List.append_assoc, List.cons_append] using this
+    obtain ⟨lx, s5, h5, t5, st5, _⟩ := RT.scanIW_starts s4 _ .WITH st4 hst
+    obtain ⟨f5, m5⟩ := peek_frame .EXACT h5 (by rw [t5]; decide) f4
+    obtain ⟨s6, h6, b6⟩ := parseTagKeyExpr_print (unsc s5) op key _ hkey g2.tokEnd.1 st5
+    obtain ⟨_, m6⟩ := tot_frame (fun _ => parseTagKeyExpr_tot) h6 f5
+    rw [wp_bind, wp_of_run_ok h5, wp_bind, unscan_wp]
+    simp only [t5, if_true]
+    rw [wp_bind, wp_bind, wp_of_run_ok h6]
+    dsimp only
+    rw [wp_pure]
+    exact tail s6 (((m3.trans m4).trans m5).trans m6) b6.stand
+
+section cardinalityW
+variable (db : Str) (qs : List (Str × Str × Str)) (c : Option Expr) (ds : List Expr) (l o : Int) (k : Str)
+
+
+/-- `cardBody_print` with a condition of the wide class; `s0` is the state the statement started in. -/
+theorem cardBody_printW (fuel : Nat) (s0 s : PState) (C : Str → List Source → Option Expr → List Expr → Int → Int → Statement)
+    (hexdb : Expressible db) (hq : ∀ m ∈ qs, QualOK m)
+    (hg : Fr s) (hsame : RT.Same s0 s) (hc : CondOKW s0.lowerTbl c)
+    (hds : ∀ x ∈ ds, RT.rtOK false x = true) (hl : 0 ≤ l ∧ l ≤ maxInt64) (ho : 0 ≤ o ∧ o ≤ maxInt64)
+    (hk : Follow k cardStop)
+    (hs : RT.Stand s (onDbText db ++ (fromQualsText qs ++ (whereText c ++ (groupText ds ++ (posText .LIMIT l ++
+      (posText .OFFSET o ++ k))))))) :
+    wp (do
+      let db ← parseOnDb
+      let sources ← parseOptFrom
+      let cond ← parseCondition fuel
+      let dims ← parseDimensions fuel
+      let limit ← parseOptTokInt .LIMIT
+      let offset ← parseOptTokInt .OFFSET
+      pure (C db sources cond dims limit offset)) s
+      (fun st s' => st = C db (qs.map qualSrc) c ds l o ∧ RT.Stand s' k) (· = .fuel) := by
+  obtain ⟨_, _, _, g2⟩ := cardRest_follow c ds l o k hk
+  obtain ⟨gF, _⟩ := card_follow db qs c ds l o k hk
+  obtain ⟨s3, h3, st3⟩ := parseOnDb_stand s db _ hexdb (gF.mono (by decide)) hs
+  obtain ⟨s4, h4, st4⟩ := parseOptFrom_quals s3 qs _ hq (g2.mono (by decide)) st3
+  obtain ⟨f3, m3⟩ := tot_frame (fun _ => parseOnDb_tot) h3 hg
+  obtain ⟨_, m4⟩ := tot_frame (fun _ => parseOptFrom_tot) h4 f3
+  have hc4 : CondOKW s4.lowerTbl c := by rw [((hsame.trans m3).trans m4).2]; exact hc
+  rw [wp_bind, wp_of_run_ok h3, wp_bind, wp_of_run_ok h4]
+  exact cardRest_printW fuel s4 (C db (qs.map qualSrc)) c ds l o k hc4 hds hl ho hk st4
+
+variable (ex : Bool)
+
+/-- `showSeriesCardinality_print_parse_partial` with a condition of the wide class. -/
+theorem showSeriesCardinality_print_parse_wide_partial (fuel : Nat) (s : PState)
+    (hexdb : Expressible db) (hq : ∀ m ∈ qs, QualOK m)
+    (hg : Fr s) (hc : CondOKW s.lowerTbl c)
+    (hds : ∀ x ∈ ds, RT.rtOK false x = true) (hl : 0 ≤ l ∧ l ≤ maxInt64) (ho : 0 ≤ o ∧ o ≤ maxInt64)
+    (hk : Follow k cardStop) (hs : s.Before (exactCardText ex ++ cardText db qs c ds l o ++ k)) :
+    wp (runHandler fuel .parseShowSeriesStatement) s
+      (fun st s' => st = .showSeriesCardinality db ex (qs.map qualSrc) c ds l o ∧ RT.Stand s' k) (· = .fuel) := by
+  obtain ⟨_, g0⟩ := card_follow db qs c ds l o k hk
+  have hs0 : s.Before (exactText ex ++ (' ' :: (Token.CARDINALITY.str ++ (onDbText db ++ (fromQualsText qs ++ (whereText c ++
+      (groupText ds ++ (posText .LIMIT l ++ (posText .OFFSET o ++ k))))))))) := by
+    simpa only [exactCardText, cardText, List.append_assoc, List.cons_append] using hs
+  obtain ⟨s1, h1, b1⟩ := optExact_print s ex _ g0.tokEnd.1 hs0.around
+  obtain ⟨s2, h2, b2⟩ := optTok_piece s1 [' '] Token.CARDINALITY.str _ .CARDINALITY [] Gap.blank b1
+    (scansAs_kw .CARDINALITY _ (by decide +kernel) g0.tokEnd.1)
+  obtain ⟨f1, m1⟩ := tot_frame (fun _ => optTok_tot .EXACT) h1 hg
+  obtain ⟨f2, m2⟩ := tot_frame (fun _ => optTok_tot .CARDINALITY) h2 f1
+  simp only [runHandler, parseShowSeries]
+  rw [wp_bind, wp_of_run_ok h1, wp_bind, wp_of_run_ok h2]
+  simp only [if_true]
+  exact cardBody_printW db qs c ds l o k fuel s s2 (fun db ss c ds l o => .showSeriesCardinality db ex ss c ds l o)
+    hexdb hq f2 (m1.trans m2) hc hds hl ho hk b2.stand
+
+/-- `showMeasurementCardinality_print_parse_partial` with a condition of the wide class. -/
+theorem showMeasurementCardinality_print_parse_wide_partial (fuel : Nat) (s : PState)
+    (hexdb : Expressible db) (hq : ∀ m ∈ qs, QualOK m)
+    (hg : Fr s) (hc : CondOKW s.lowerTbl c)
+    (hds : ∀ x ∈ ds, RT.rtOK false x = true) (hl : 0 ≤ l ∧ l ≤ maxInt64) (ho : 0 ≤ o ∧ o ≤ maxInt64)
+    (hk : Follow k cardStop)
+    (hs : s.Before ((if ex then ' ' :: Token.CARDINALITY.str else []) ++ cardText db qs c ds l o ++ k)) :
+    wp (runHandler fuel (if ex then .parseShowMeasurementCardinalityStatement_true
+        else .parseShowMeasurementCardinalityStatement_false)) s
+      (fun st s' => st = .showMeasurementCardinality ex db (qs.map qualSrc) c ds l o ∧ RT.Stand s' k) (· = .fuel) := by
+  obtain ⟨_, g0⟩ := card_follow db qs c ds l o k hk
+  cases ex with
+  | true =>
+    have hs0 : s.Before ([' '] ++ (Token.CARDINALITY.str ++ (onDbText db ++ (fromQualsText qs ++ (whereText c ++
+        (groupText ds ++ (posText .LIMIT l ++ (posText .OFFSET o ++ k)))))))) := by
+      simpa only [cardText, if_true, List.append_assoc, List.cons_append, List.nil_append] using hs
+    obtain ⟨s2, h2, b2⟩ := expectTok_piece s [' '] Token.CARDINALITY.str _ .CARDINALITY [] ["CARDINALITY"] Gap.blank
+      hs0.around (scansAs_kw .CARDINALITY _ (by decide +kernel) g0.tokEnd.1)
+    obtain ⟨f2, m2⟩ := tot_frame (fun _ => expectTok_tot .CARDINALITY ["CARDINALITY"]) h2 hg
+    simp only [if_true, runHandler, parseShowMeasurementCardinality]
+    rw [wp_bind, wp_of_run_ok h2]
+    exact cardBody_printW db qs c ds l o k fuel s s2 (fun db ss c ds l o => .showMeasurementCardinality true db ss c ds l o)
+      hexdb hq f2 m2 hc hds hl ho hk b2.stand
+  | false =>
+    have hs0 : s.Before (onDbText db ++ (fromQualsText qs ++ (whereText c ++
+        (groupText ds ++ (posText .LIMIT l ++ (posText .OFFSET o ++ k)))))) := by
+      simpa only [cardText, Bool.false_eq_true, if_false, List.append_assoc, List.nil_append] using hs
+    simp only [Bool.false_eq_true, if_false, runHandler, parseShowMeasurementCardinality]
+    exact cardBody_printW db qs c ds l o k fuel s s (fun db ss c ds l o => .showMeasurementCardinality false db ss c ds l o)
+      hexdb hq hg (RT.Same.refl s) hc hds hl ho hk hs0.stand
+
+/-- `showKeyCardinality_print_parse_partial` with a condition of the wide class. -/
+theorem showKeyCardinality_print_parse_wide_partial (fuel : Nat) (s : PState)
+    (hexdb : Expressible db) (hq : ∀ m ∈ qs, QualOK m)
+    (hg : Fr s) (hc : CondOKW s.lowerTbl c)
+    (hds : ∀ x ∈ ds, RT.rtOK false x = true) (hl : 0 ≤ l ∧ l ≤ maxInt64) (ho : 0 ≤ o ∧ o ≤ maxInt64)
+    (hk : Follow k cardStop) (hs : s.Before (exactCardText ex ++ cardText db qs c ds l o ++ k)) :
+    wp (runHandler fuel .parseShowTagKeyCardinalityStatement) s
+      (fun st s' => st = .showTagKeyCardinality db ex (qs.map qualSrc) c ds l o ∧ RT.Stand s' k) (· = .fuel) ∧
+    wp (runHandler fuel .parseShowFieldKeyCardinalityStatement) s
+      (fun st s' => st = .showFieldKeyCardinality db ex (qs.map qualSrc) c ds l o ∧ RT.Stand s' k) (· = .fuel) := by
+  obtain ⟨_, g0⟩ := card_follow db qs c ds l o k hk
+  have hs0 : s.Before (exactText ex ++ (' ' :: (Token.CARDINALITY.str ++ (onDbText db ++ (fromQualsText qs ++ (whereText c ++
+      (groupText ds ++ (posText .LIMIT l ++ (posText .OFFSET o ++ k))))))))) := by
+    simpa only [exactCardText, cardText, List.append_assoc, List.cons_append] using hs
+  obtain ⟨s2, h2, b2⟩ := parseExactCardinality_print ex s _ g0.tokEnd.1 hs0
+  obtain ⟨f2, m2⟩ := tot_frame (fun _ => parseExactCardinality_tot) h2 hg
+  constructor
+  · simp only [runHandler, parseShowTagKeyCardinality]
+    rw [wp_bind, wp_of_run_ok h2]
+    exact cardBody_printW db qs c ds l o k fuel s s2 (fun db ss c ds l o => .showTagKeyCardinality db ex ss c ds l o)
+      hexdb hq f2 m2 hc hds hl ho hk b2.stand
+  · simp only [runHandler, parseShowFieldKeyCardinality]
+    rw [wp_bind, wp_of_run_ok h2]
+    exact cardBody_printW db qs c ds l o k fuel s s2 (fun db ss c ds l o => .showFieldKeyCardinality db ex ss c ds l o)
+      hexdb hq f2 m2 hc hds hl ho hk b2.stand
+
+end cardinalityW
+
+/-- A token delivery by `ScanIgnoreWhitespace` keeps the frame. -/
+theorem scan_frame {s : PState} {lx : Lexeme} {s1 : PState} (h : scanIW.run s = .ok (lx, s1)) (hs : Fr s) :
+    Fr s1 ∧ RT.Same s s1 := by
+  refine tot_frame (m := expectTok lx.tok []) (fun _ => expectTok_tot _ _) (a := ()) ?_ hs
+  unfold expectTok
+  rw [P.run_bind _ _ s lx s1 h]
+  simp only [ne_eq, not_true_eq_false, if_false]
+  rfl
+
+section cardinalityW2
+variable (db : Str) (qs : List (Str × Str × Str)) (c : Option Expr) (ds : List Expr) (l o : Int) (k : Str) (ex : Bool)
+
+/-- `showTagValuesCardinality_print_parse_partial` with a condition of the wide class. -/
+theorem showTagValuesCardinality_print_parse_wide_partial (fuel : Nat) (s : PState) (op : Token) (key : Expr)
+    (hexdb : Expressible db) (hq : ∀ m ∈ qs, QualOK m) (hkey : tagKeyOKB op key = true)
+    (hg : Fr s) (hc : CondOKW s.lowerTbl c)
+    (hds : ∀ x ∈ ds, RT.rtOK false x = true) (hl : 0 ≤ l ∧ l ≤ maxInt64) (ho : 0 ≤ o ∧ o ≤ maxInt64)
+    (hk : Follow k cardStop) (hs : s.Before (exactCardText ex ++ cardKeyText db qs op key c ds l o ++ k)) :
+    wp (runHandler fuel .parseShowTagValuesStatement) s
+      (fun st s' => st = .showTagValuesCardinality db ex (qs.map qualSrc) op (some key) c ds l o ∧ RT.Stand s' k)
+      (· = .fuel) := by
+  obtain ⟨_, _, _, g2⟩ := cardRest_follow c ds l o k hk
+  have gW : Follow (withKeyText op key ++ (whereText c ++ (groupText ds ++ (posText .LIMIT l ++ (posText .OFFSET o ++ k)))))
+      [.EXACT, .CARDINALITY, .ON, .FROM, .COMMA] :=
+    Follow.opt (kwText_withKey op key) (by decide +kernel) rfl (by decide) (g2.mono (by decide))
+  have gF : Follow (fromQualsText qs ++ (withKeyText op key ++ (whereText c ++ (groupText ds ++ (posText .LIMIT l ++
+      (posText .OFFSET o ++ k)))))) [.EXACT, .CARDINALITY, .ON] :=
+    Follow.opt (kwText_fromQuals _) (by decide +kernel) rfl (by decide) (gW.mono (by decide))
+  have g0 : Follow (onDbText db ++ (fromQualsText qs ++ (withKeyText op key ++ (whereText c ++ (groupText ds ++
+      (posText .LIMIT l ++ (posText .OFFSET o ++ k))))))) [.EXACT, .CARDINALITY] :=
+    Follow.opt (kwText_onDb _) (by decide +kernel) rfl (by decide) (gF.mono (by decide))
+  -- the clauses after `[EXACT] CARDINALITY`, from a state before them
+  have body : ∀ (s2 : PState), Fr s2 → RT.Same s s2 → s2.Before (onDbText db ++ (fromQualsText qs ++ (withKeyText op key ++ (whereText c ++
+      (groupText ds ++ (posText .LIMIT l ++ (posText .OFFSET o ++ k))))))) →
+      wp (do
+        let db ← parseOnDb
+        let sources ← parseOptFrom
+        let (op, key) ← parseTagKeyExpr
+        let cond ← parseCondition fuel
+        let dims ← parseDimensions fuel
+        let limit ← parseOptTokInt .LIMIT
+        let offset ← parseOptTokInt .OFFSET
+        pure (Statement.showTagValuesCardinality db ex sources op (some key) cond dims limit offset)) s2
+        (fun st s' => st = Statement.showTagValuesCardinality db ex (qs.map qualSrc) op (some key) c ds l o ∧
+          RT.Stand s' k)
+        (· = .fuel) := by
+    intro s2 f2 m2 b2
+    obtain ⟨s3, h3, st3⟩ := parseOnDb_stand s2 db _ hexdb (gF.mono (by decide)) b2.stand
+    obtain ⟨f3, m3⟩ := tot_frame (fun _ => parseOnDb_tot) h3 f2
+    obtain ⟨s4, h4, st4⟩ := parseOptFrom_quals s3 qs _ hq (gW.mono (by decide)) st3
+    obtain ⟨f4, m4⟩ := tot_frame (fun _ => parseOptFrom_tot) h4 f3
+    obtain ⟨s5, h5, b5⟩ := parseTagKeyExpr_print s4 op key _ hkey g2.tokEnd.1 st4
+    obtain ⟨_, m5⟩ := tot_frame (fun _ => parseTagKeyExpr_tot) h5 f4
+    have hc5 : CondOKW s5.lowerTbl c := by rw [(((m2.trans m3).trans m4).trans m5).2]; exact hc
+    rw [wp_bind, wp_of_run_ok h3, wp_bind, wp_of_run_ok h4, wp_bind, wp_of_run_ok h5]
+    dsimp only
+    exact cardRest_printW fuel s5 (fun c ds l o => .showTagValuesCardinality db ex (qs.map qualSrc) op (some key) c ds l o)
+      c ds l o k hc5 hds hl ho hk b5.stand
+  cases ex with
+  | true =>
+    have hs0 : s.Before ([' '] ++ (Token.EXACT.str ++ (' ' :: (Token.CARDINALITY.str ++ (onDbText db ++ (fromQualsText qs ++
+        (withKeyText op key ++ (whereText c ++ (groupText ds ++ (posText .LIMIT l ++ (posText .OFFSET o ++ k)))))))))))
+        := by
+      simpa only [exactCardText, exactText, cardKeyText, if_true, List.append_assoc, List.cons_append, List.nil_append]
+        using hs
+    obtain ⟨lx, s1, h1, t1, _, b1⟩ := scanIW_piece s [' '] Token.EXACT.str _ .EXACT [] Gap.blank hs0.around
+      (scansAs_kw .EXACT _ (by decide +kernel) (WordEnd.blank _))
+    obtain ⟨s2, h2, b2⟩ := expectTok_piece s1 [' '] Token.CARDINALITY.str _ .CARDINALITY [] ["CARDINALITY"] Gap.blank
+      b1.around (scansAs_kw .CARDINALITY _ (by decide +kernel) g0.tokEnd.1)
+    simp only [runHandler, parseShowTagValues]
+    rw [wp_bind, wp_of_run_ok h1]
+    simp only [t1, if_true, parseShowTagValuesCardinality]
+    rw [wp_bind, wp_of_run_ok h2]
+    obtain ⟨f1, m1⟩ := scan_frame h1 hg
+    obtain ⟨f2, m2⟩ := tot_frame (fun _ => expectTok_tot .CARDINALITY ["CARDINALITY"]) h2 f1
+    exact body s2 f2 (m1.trans m2) b2
+  | false =>
+    have hs0 : s.Before ([' '] ++ (Token.CARDINALITY.str ++ (onDbText db ++ (fromQualsText qs ++
+        (withKeyText op key ++ (whereText c ++ (groupText ds ++ (posText .LIMIT l ++ (posText .OFFSET o ++ k)))))))))
+        := by
+      simpa only [exactCardText, exactText, cardKeyText, Bool.false_eq_true, if_false, List.append_assoc,
+        List.cons_append, List.nil_append] using hs
+    obtain ⟨lx, s1, h1, t1, _, b1⟩ := scanIW_piece s [' '] Token.CARDINALITY.str _ .CARDINALITY [] Gap.blank hs0.around
+      (scansAs_kw .CARDINALITY _ (by decide +kernel) g0.tokEnd.1)
+    simp only [runHandler, parseShowTagValues]
+    rw [wp_bind, wp_of_run_ok h1]
+    simp only [t1, reduceCtorEq, if_false, if_true, parseShowTagValuesCardinality, Bool.false_eq_true]
+    obtain ⟨f1, m1⟩ := scan_frame h1 hg
+    exact body s1 f1 m1 b1
+
+end cardinalityW2
+
+/-- Non-vacuity of the wide variants: `… WHERE time > now() - 90m AND value >= 1.5`. -/
+def exCondW : Option Expr := some (.binary .AND
+  (.binary .GT (.varRef "time".toList .Unknown) (.binary .SUB (.call "now".toList []) (.duration 5400000000000)))
+  (.binary .GTE (.varRef "value".toList .Unknown) (.number ⟨false, 15, 1⟩)))
+def exTagValuesTextW : Str := showTagValuesText [] exQs .EQ (.string "host".toList) exCondW exSort 10 0
+def exMeasTextW : Str := showMeasText [] [] true false (.name "cpu".toList) exCondW [] 0 0
+def exCardTextW : Str := exactCardText true ++ cardText "my db".toList exQs exCondW exDims 10 3
+
+example : exTagValuesTextW = (" FROM \"my db\"..cpu, rp.m, m WITH KEY = host WHERE time > now() - 90m AND value >= 1.5 " ++
+      "ORDER BY time DESC LIMIT 10").toList ∧
+    exMeasTextW = " ON * WITH MEASUREMENT = cpu WHERE time > now() - 90m AND value >= 1.5".toList ∧
+    exCardTextW = (" EXACT CARDINALITY ON \"my db\" FROM \"my db\"..cpu, rp.m, m WHERE time > now() - 90m AND value >= 1.5 " ++
+      "GROUP BY host, \"my tag\" LIMIT 10 OFFSET 3").toList := by decide +kernel
+
+example : CondOKW [] exCondW ∧ ¬ CondOK exCondW := by decide +kernel
+
+section
+attribute [local irreducible] wp
+example : wp (runHandler 200 .parseShowTagValuesStatement) (PState.init exTagValuesTextW [] [])
+    (fun st s' => st = .showTagValues [] (exQs.map qualSrc) .EQ (some (.string "host".toList)) exCondW exSort 10 0 ∧
+      RT.Stand s' [eofRune]) (· = .fuel) :=
+  showTagValues_print_parse_wide_partial 200 (PState.init exTagValuesTextW [] []) [] exQs .EQ (.string "host".toList) exCondW
+    exSort 10 0 [eofRune] (by decide +kernel) (by decide +kernel) (by decide +kernel) (Fr.init _ _ _)
+    (show CondOKW [] exCondW by decide +kernel) (by decide +kernel) (by decide) (by decide) (Follow.eof _ (by decide))
+    (init_before exTagValuesTextW (by decide +kernel))
+
+example : wp (runHandler 200 .parseShowMeasurementsStatement) (PState.init exMeasTextW [] [])
+    (fun st s' => st = .showMeasurements [] [] true false (some (nameSrc "cpu".toList)) exCondW [] 0 0 ∧
+      RT.Stand s' [eofRune]) (· = .fuel) :=
+  showMeasurements_full_print_parse_wide_partial 200 (PState.init exMeasTextW [] []) [] [] true false (.name "cpu".toList)
+    exCondW [] 0 0 [eofRune] (by decide +kernel) (by decide +kernel) (by decide +kernel) (by decide +kernel) (Fr.init _ _ _)
+    (show CondOKW [] exCondW by decide +kernel) (by decide +kernel) (by decide) (by decide) (Follow.eof _ (by decide))
+    (init_before exMeasTextW (by decide +kernel))
+
+example : wp (runHandler 200 .parseShowSeriesStatement) (PState.init exCardTextW [] [])
+    (fun st s' => st = .showSeriesCardinality "my db".toList true (exQs.map qualSrc) exCondW exDims 10 3 ∧
+      RT.Stand s' [eofRune]) (· = .fuel) :=
+  showSeriesCardinality_print_parse_wide_partial "my db".toList exQs exCondW exDims 10 3 [eofRune] true 200
+    (PState.init exCardTextW [] []) (by decide +kernel) (by decide +kernel) (Fr.init _ _ _)
+    (show CondOKW [] exCondW by decide +kernel) (by decide +kernel) (by decide) (by decide) (Follow.eof _ (by decide))
+    (init_before exCardTextW (by decide +kernel))
+end
+
+example : (match (runHandler 200 .parseShowTagValuesStatement).run (PState.init exTagValuesTextW [] []) with
+    | .ok _ => true
+    | .error _ => false) = true := by decide +kernel
 
 end InfluxQL.C02
